@@ -15,10 +15,6 @@ let option_map f = function
 | Some a -> Some (f a)
 | None -> None
 
-type ('a, 'b) sum =
-| Inl of 'a
-| Inr of 'b
-
 (** val fst : ('a1 * 'a2) -> 'a1 **)
 
 let fst = function
@@ -54,16 +50,10 @@ let compOpp = function
 | Lt -> Gt
 | Gt -> Lt
 
-(** val pred : nat -> nat **)
-
-let pred n = match n with
-| O -> n
-| S u -> u
-
 module Coq__1 = struct
  (** val add : nat -> nat -> nat **)
- let rec add n m =
-   match n with
+ let rec add n0 m =
+   match n0 with
    | O -> m
    | S p -> S (add p m)
 end
@@ -74,38 +64,14 @@ type positive =
 | XO of positive
 | XH
 
+type n =
+| N0
+| Npos of positive
+
 type z =
 | Z0
 | Zpos of positive
 | Zneg of positive
-
-(** val eqb : bool -> bool -> bool **)
-
-let eqb b1 b2 =
-  if b1 then b2 else if b2 then false else true
-
-module Nat =
- struct
-  (** val eqb : nat -> nat -> bool **)
-
-  let rec eqb n m =
-    match n with
-    | O -> (match m with
-            | O -> true
-            | S _ -> false)
-    | S n' -> (match m with
-               | O -> false
-               | S m' -> eqb n' m')
-
-  (** val leb : nat -> nat -> bool **)
-
-  let rec leb n m =
-    match n with
-    | O -> true
-    | S n' -> (match m with
-               | O -> false
-               | S m' -> leb n' m')
- end
 
 module Pos =
  struct
@@ -162,6 +128,13 @@ module Pos =
   | XO p -> XI (pred_double p)
   | XH -> XH
 
+  (** val pred_N : positive -> n **)
+
+  let pred_N = function
+  | XI p -> Npos (XO p)
+  | XO p -> Npos (pred_double p)
+  | XH -> N0
+
   (** val mul : positive -> positive -> positive **)
 
   let rec mul x y =
@@ -214,6 +187,72 @@ module Pos =
              | XH -> true
              | _ -> false)
 
+  (** val coq_Nsucc_double : n -> n **)
+
+  let coq_Nsucc_double = function
+  | N0 -> Npos XH
+  | Npos p -> Npos (XI p)
+
+  (** val coq_Ndouble : n -> n **)
+
+  let coq_Ndouble = function
+  | N0 -> N0
+  | Npos p -> Npos (XO p)
+
+  (** val coq_lor : positive -> positive -> positive **)
+
+  let rec coq_lor p q =
+    match p with
+    | XI p0 ->
+      (match q with
+       | XI q0 -> XI (coq_lor p0 q0)
+       | XO q0 -> XI (coq_lor p0 q0)
+       | XH -> p)
+    | XO p0 ->
+      (match q with
+       | XI q0 -> XI (coq_lor p0 q0)
+       | XO q0 -> XO (coq_lor p0 q0)
+       | XH -> XI p0)
+    | XH -> (match q with
+             | XO q0 -> XI q0
+             | _ -> q)
+
+  (** val coq_land : positive -> positive -> n **)
+
+  let rec coq_land p q =
+    match p with
+    | XI p0 ->
+      (match q with
+       | XI q0 -> coq_Nsucc_double (coq_land p0 q0)
+       | XO q0 -> coq_Ndouble (coq_land p0 q0)
+       | XH -> Npos XH)
+    | XO p0 ->
+      (match q with
+       | XI q0 -> coq_Ndouble (coq_land p0 q0)
+       | XO q0 -> coq_Ndouble (coq_land p0 q0)
+       | XH -> N0)
+    | XH -> (match q with
+             | XO _ -> N0
+             | _ -> Npos XH)
+
+  (** val ldiff : positive -> positive -> n **)
+
+  let rec ldiff p q =
+    match p with
+    | XI p0 ->
+      (match q with
+       | XI q0 -> coq_Ndouble (ldiff p0 q0)
+       | XO q0 -> coq_Nsucc_double (ldiff p0 q0)
+       | XH -> Npos (XO p0))
+    | XO p0 ->
+      (match q with
+       | XI q0 -> coq_Ndouble (ldiff p0 q0)
+       | XO q0 -> coq_Ndouble (ldiff p0 q0)
+       | XH -> Npos p)
+    | XH -> (match q with
+             | XO _ -> Npos XH
+             | _ -> N0)
+
   (** val iter_op : ('a1 -> 'a1 -> 'a1) -> positive -> 'a1 -> 'a1 **)
 
   let rec iter_op op p a =
@@ -232,6 +271,42 @@ module Pos =
   let rec of_succ_nat = function
   | O -> XH
   | S x -> succ (of_succ_nat x)
+ end
+
+module N =
+ struct
+  (** val succ_pos : n -> positive **)
+
+  let succ_pos = function
+  | N0 -> XH
+  | Npos p -> Pos.succ p
+
+  (** val coq_lor : n -> n -> n **)
+
+  let coq_lor n0 m =
+    match n0 with
+    | N0 -> m
+    | Npos p -> (match m with
+                 | N0 -> n0
+                 | Npos q -> Npos (Pos.coq_lor p q))
+
+  (** val coq_land : n -> n -> n **)
+
+  let coq_land n0 m =
+    match n0 with
+    | N0 -> N0
+    | Npos p -> (match m with
+                 | N0 -> N0
+                 | Npos q -> Pos.coq_land p q)
+
+  (** val ldiff : n -> n -> n **)
+
+  let ldiff n0 m =
+    match n0 with
+    | N0 -> N0
+    | Npos p -> (match m with
+                 | N0 -> n0
+                 | Npos q -> Pos.ldiff p q)
  end
 
 module Z =
@@ -302,8 +377,8 @@ module Z =
 
   (** val sub : z -> z -> z **)
 
-  let sub m n =
-    add m (opp n)
+  let sub m n0 =
+    add m (opp n0)
 
   (** val mul : z -> z -> z **)
 
@@ -363,6 +438,13 @@ module Z =
     | Lt -> true
     | _ -> false
 
+  (** val geb : z -> z -> bool **)
+
+  let geb x y =
+    match compare x y with
+    | Lt -> false
+    | _ -> true
+
   (** val gtb : z -> z -> bool **)
 
   let gtb x y =
@@ -394,7 +476,13 @@ module Z =
 
   let of_nat = function
   | O -> Z0
-  | S n0 -> Zpos (Pos.of_succ_nat n0)
+  | S n1 -> Zpos (Pos.of_succ_nat n1)
+
+  (** val of_N : n -> z **)
+
+  let of_N = function
+  | N0 -> Z0
+  | Npos p -> Zpos p
 
   (** val pos_div_eucl : positive -> z -> z * z **)
 
@@ -438,11 +526,61 @@ module Z =
           | _ -> ((opp (add q (Zpos XH))), (sub b r)))
        | Zneg b' -> let (q, r) = pos_div_eucl a' (Zpos b') in (q, (opp r)))
 
+  (** val div : z -> z -> z **)
+
+  let div a b =
+    let (q, _) = div_eucl a b in q
+
   (** val modulo : z -> z -> z **)
 
   let modulo a b =
     let (_, r) = div_eucl a b in r
+
+  (** val coq_lor : z -> z -> z **)
+
+  let coq_lor a b =
+    match a with
+    | Z0 -> b
+    | Zpos a0 ->
+      (match b with
+       | Z0 -> a
+       | Zpos b0 -> Zpos (Pos.coq_lor a0 b0)
+       | Zneg b0 -> Zneg (N.succ_pos (N.ldiff (Pos.pred_N b0) (Npos a0))))
+    | Zneg a0 ->
+      (match b with
+       | Z0 -> a
+       | Zpos b0 -> Zneg (N.succ_pos (N.ldiff (Pos.pred_N a0) (Npos b0)))
+       | Zneg b0 ->
+         Zneg (N.succ_pos (N.coq_land (Pos.pred_N a0) (Pos.pred_N b0))))
+
+  (** val coq_land : z -> z -> z **)
+
+  let coq_land a b =
+    match a with
+    | Z0 -> Z0
+    | Zpos a0 ->
+      (match b with
+       | Z0 -> Z0
+       | Zpos b0 -> of_N (Pos.coq_land a0 b0)
+       | Zneg b0 -> of_N (N.ldiff (Npos a0) (Pos.pred_N b0)))
+    | Zneg a0 ->
+      (match b with
+       | Z0 -> Z0
+       | Zpos b0 -> of_N (N.ldiff (Npos b0) (Pos.pred_N a0))
+       | Zneg b0 ->
+         Zneg (N.succ_pos (N.coq_lor (Pos.pred_N a0) (Pos.pred_N b0))))
  end
+
+(** val nth : nat -> 'a1 list -> 'a1 -> 'a1 **)
+
+let rec nth n0 l default =
+  match n0 with
+  | O -> (match l with
+          | [] -> default
+          | x :: _ -> x)
+  | S m -> (match l with
+            | [] -> default
+            | _ :: t -> nth m t default)
 
 (** val nth_error : 'a1 list -> nat -> 'a1 option **)
 
@@ -450,9 +588,9 @@ let rec nth_error l = function
 | O -> (match l with
         | [] -> None
         | x :: _ -> Some x)
-| S n0 -> (match l with
+| S n1 -> (match l with
            | [] -> None
-           | _ :: l0 -> nth_error l0 n0)
+           | _ :: l0 -> nth_error l0 n1)
 
 (** val last : 'a1 list -> 'a1 -> 'a1 **)
 
@@ -462,14 +600,6 @@ let rec last l d =
   | a :: l0 -> (match l0 with
                 | [] -> a
                 | _ :: _ -> last l0 d)
-
-(** val removelast : 'a1 list -> 'a1 list **)
-
-let rec removelast = function
-| [] -> []
-| a :: l0 -> (match l0 with
-              | [] -> []
-              | _ :: _ -> a :: (removelast l0))
 
 (** val rev : 'a1 list -> 'a1 list **)
 
@@ -502,472 +632,29 @@ let rec forallb f = function
 | [] -> true
 | a :: l0 -> (&&) (f a) (forallb f l0)
 
+(** val filter : ('a1 -> bool) -> 'a1 list -> 'a1 list **)
+
+let rec filter f = function
+| [] -> []
+| x :: l0 -> if f x then x :: (filter f l0) else filter f l0
+
 (** val firstn : nat -> 'a1 list -> 'a1 list **)
 
-let rec firstn n l =
-  match n with
+let rec firstn n0 l =
+  match n0 with
   | O -> []
-  | S n0 -> (match l with
+  | S n1 -> (match l with
              | [] -> []
-             | a :: l0 -> a :: (firstn n0 l0))
+             | a :: l0 -> a :: (firstn n1 l0))
 
 (** val skipn : nat -> 'a1 list -> 'a1 list **)
 
-let rec skipn n l =
-  match n with
+let rec skipn n0 l =
+  match n0 with
   | O -> l
-  | S n0 -> (match l with
+  | S n1 -> (match l with
              | [] -> []
-             | _ :: l0 -> skipn n0 l0)
-
-(** val sw : z -> z -> z **)
-
-let sw bits x =
-  Z.sub
-    (Z.modulo (Z.add x (Z.pow (Zpos (XO XH)) (Z.sub bits (Zpos XH))))
-      (Z.pow (Zpos (XO XH)) bits))
-    (Z.pow (Zpos (XO XH)) (Z.sub bits (Zpos XH)))
-
-(** val jP_JBV_NONE : z **)
-
-let jP_JBV_NONE =
-  Z0
-
-(** val jP_JBV_NULL : z **)
-
-let jP_JBV_NULL =
-  Zpos XH
-
-(** val jP_JBV_BOOL : z **)
-
-let jP_JBV_BOOL =
-  Zpos (XO XH)
-
-(** val jP_JBV_I64 : z **)
-
-let jP_JBV_I64 =
-  Zpos (XI XH)
-
-(** val jP_JBV_F64 : z **)
-
-let jP_JBV_F64 =
-  Zpos (XO (XO XH))
-
-(** val jP_JBV_STR : z **)
-
-let jP_JBV_STR =
-  Zpos (XI (XO XH))
-
-(** val jP_JBV_OBJECT : z **)
-
-let jP_JBV_OBJECT =
-  Zpos (XO (XI XH))
-
-(** val jP_JBV_ARRAY : z **)
-
-let jP_JBV_ARRAY =
-  Zpos (XI (XI XH))
-
-(** val jP_JBP_ADD : z **)
-
-let jP_JBP_ADD =
-  Zpos XH
-
-(** val jP_JBP_REMOVE : z **)
-
-let jP_JBP_REMOVE =
-  Zpos (XO XH)
-
-(** val jP_JBP_REPLACE : z **)
-
-let jP_JBP_REPLACE =
-  Zpos (XI XH)
-
-(** val jP_JBP_COPY : z **)
-
-let jP_JBP_COPY =
-  Zpos (XO (XO XH))
-
-(** val jP_JBP_MOVE : z **)
-
-let jP_JBP_MOVE =
-  Zpos (XI (XO XH))
-
-(** val jP_JBP_TEST : z **)
-
-let jP_JBP_TEST =
-  Zpos (XO (XI XH))
-
-(** val jP_JBP_INCREMENT : z **)
-
-let jP_JBP_INCREMENT =
-  Zpos (XI (XI XH))
-
-(** val jP_JBP_ADD_CREATE : z **)
-
-let jP_JBP_ADD_CREATE =
-  Zpos (XO (XO (XO XH)))
-
-(** val jP_JBP_SWAP : z **)
-
-let jP_JBP_SWAP =
-  Zpos (XI (XO (XO XH)))
-
-(** val jP_ERR_PATH_NOTFOUND : z **)
-
-let jP_ERR_PATH_NOTFOUND =
-  Zpos (XI (XO (XO (XI (XO (XI (XI (XI (XO (XO (XO (XI (XO (XI (XO (XO
-    XH))))))))))))))))
-
-(** val jP_ERR_PATCH_INVALID : z **)
-
-let jP_ERR_PATCH_INVALID =
-  Zpos (XO (XI (XO (XI (XO (XI (XI (XI (XO (XO (XO (XI (XO (XI (XO (XO
-    XH))))))))))))))))
-
-(** val jP_ERR_PATCH_INVALID_OP : z **)
-
-let jP_ERR_PATCH_INVALID_OP =
-  Zpos (XI (XI (XO (XI (XO (XI (XI (XI (XO (XO (XO (XI (XO (XI (XO (XO
-    XH))))))))))))))))
-
-(** val jP_ERR_PATCH_NOVALUE : z **)
-
-let jP_ERR_PATCH_NOVALUE =
-  Zpos (XO (XO (XI (XI (XO (XI (XI (XI (XO (XO (XO (XI (XO (XI (XO (XO
-    XH))))))))))))))))
-
-(** val jP_ERR_PATCH_TARGET_INVALID : z **)
-
-let jP_ERR_PATCH_TARGET_INVALID =
-  Zpos (XI (XO (XI (XI (XO (XI (XI (XI (XO (XO (XO (XI (XO (XI (XO (XO
-    XH))))))))))))))))
-
-(** val jP_ERR_PATCH_INVALID_VALUE : z **)
-
-let jP_ERR_PATCH_INVALID_VALUE =
-  Zpos (XO (XI (XI (XI (XO (XI (XI (XI (XO (XO (XO (XI (XO (XI (XO (XO
-    XH))))))))))))))))
-
-(** val jP_ERR_PATCH_INVALID_ARRAY_INDEX : z **)
-
-let jP_ERR_PATCH_INVALID_ARRAY_INDEX =
-  Zpos (XI (XI (XI (XI (XO (XI (XI (XI (XO (XO (XO (XI (XO (XI (XO (XO
-    XH))))))))))))))))
-
-(** val jP_ERR_PATCH_TEST_FAILED : z **)
-
-let jP_ERR_PATCH_TEST_FAILED =
-  Zpos (XO (XI (XO (XO (XI (XI (XI (XI (XO (XO (XO (XI (XO (XI (XO (XO
-    XH))))))))))))))))
-
-(** val jP_ERR_JSON_POINTER : z **)
-
-let jP_ERR_JSON_POINTER =
-  Zpos (XO (XO (XO (XI (XO (XI (XI (XI (XO (XO (XO (XI (XO (XI (XO (XO
-    XH))))))))))))))))
-
-(** val jP_ERR_CREATION : z **)
-
-let jP_ERR_CREATION =
-  Zpos (XO (XI (XO (XO (XO (XI (XI (XI (XO (XO (XO (XI (XO (XI (XO (XO
-    XH))))))))))))))))
-
-(** val jP_ERR_INVALID_ARGS : z **)
-
-let jP_ERR_INVALID_ARGS =
-  Zpos (XI (XO (XO (XO (XO (XO (XO (XI (XI (XO (XO (XO (XI (XO (XO (XO
-    XH))))))))))))))))
-
-(** val jP_ERR_NOT_IMPLEMENTED : z **)
-
-let jP_ERR_NOT_IMPLEMENTED =
-  Zpos (XO (XO (XI (XI (XI (XI (XI (XO (XI (XO (XO (XO (XI (XO (XO (XO
-    XH))))))))))))))))
-
-(** val skip_ws : z list -> z list **)
-
-let rec skip_ws s = match s with
-| [] -> []
-| c :: r ->
-  if (&&) (Z.leb (Zpos XH) c) (Z.leb c (Zpos (XO (XO (XO (XO (XO XH)))))))
-  then skip_ws r
-  else s
-
-(** val atoi_digits : z list -> z -> z **)
-
-let rec atoi_digits s num =
-  match s with
-  | [] -> num
-  | c :: r ->
-    if (||) (Z.ltb c (Zpos (XO (XO (XO (XO (XI XH)))))))
-         (Z.gtb c (Zpos (XI (XO (XO (XI (XI XH)))))))
-    then num
-    else atoi_digits r
-           (sw (Zpos (XO (XO (XO (XO (XO (XO XH)))))))
-             (Z.sub (Z.add (Z.mul num (Zpos (XO (XI (XO XH))))) c) (Zpos (XO
-               (XO (XO (XO (XI XH))))))))
-
-(** val is_inf : z list -> bool **)
-
-let is_inf = function
-| [] -> false
-| z0 :: l ->
-  (match z0 with
-   | Zpos p ->
-     (match p with
-      | XI p0 ->
-        (match p0 with
-         | XO p1 ->
-           (match p1 with
-            | XO p2 ->
-              (match p2 with
-               | XI p3 ->
-                 (match p3 with
-                  | XO p4 ->
-                    (match p4 with
-                     | XI p5 ->
-                       (match p5 with
-                        | XH ->
-                          (match l with
-                           | [] -> false
-                           | z1 :: l0 ->
-                             (match z1 with
-                              | Zpos p6 ->
-                                (match p6 with
-                                 | XO p7 ->
-                                   (match p7 with
-                                    | XI p8 ->
-                                      (match p8 with
-                                       | XI p9 ->
-                                         (match p9 with
-                                          | XI p10 ->
-                                            (match p10 with
-                                             | XO p11 ->
-                                               (match p11 with
-                                                | XI p12 ->
-                                                  (match p12 with
-                                                   | XH ->
-                                                     (match l0 with
-                                                      | [] -> false
-                                                      | z2 :: l1 ->
-                                                        (match z2 with
-                                                         | Zpos p13 ->
-                                                           (match p13 with
-                                                            | XO p14 ->
-                                                              (match p14 with
-                                                               | XI p15 ->
-                                                                 (match p15 with
-                                                                  | XI p16 ->
-                                                                    (match p16 with
-                                                                    | XO p17 ->
-                                                                    (match p17 with
-                                                                    | XO p18 ->
-                                                                    (match p18 with
-                                                                    | XI p19 ->
-                                                                    (match p19 with
-                                                                    | XH ->
-                                                                    (match l1 with
-                                                                    | [] ->
-                                                                    true
-                                                                    | _ :: _ ->
-                                                                    false)
-                                                                    | _ ->
-                                                                    false)
-                                                                    | _ ->
-                                                                    false)
-                                                                    | _ ->
-                                                                    false)
-                                                                    | _ ->
-                                                                    false)
-                                                                  | _ -> false)
-                                                               | _ -> false)
-                                                            | _ -> false)
-                                                         | _ -> false))
-                                                   | _ -> false)
-                                                | _ -> false)
-                                             | _ -> false)
-                                          | _ -> false)
-                                       | _ -> false)
-                                    | _ -> false)
-                                 | _ -> false)
-                              | _ -> false))
-                        | _ -> false)
-                     | _ -> false)
-                  | _ -> false)
-               | _ -> false)
-            | _ -> false)
-         | _ -> false)
-      | _ -> false)
-   | _ -> false)
-
-(** val atoi : z list -> z **)
-
-let atoi s =
-  let s0 = skip_ws s in
-  (match s0 with
-   | [] ->
-     let sign = Zpos XH in
-     if is_inf s0
-     then sw (Zpos (XO (XO (XO (XO (XO (XO XH)))))))
-            (Z.mul
-              (Z.sub
-                (Z.pow (Zpos (XO XH)) (Zpos (XI (XI (XI (XI (XI XH)))))))
-                (Zpos XH)) sign)
-     else sw (Zpos (XO (XO (XO (XO (XO (XO XH)))))))
-            (Z.mul (atoi_digits s0 Z0) sign)
-   | z0 :: r ->
-     (match z0 with
-      | Zpos p ->
-        (match p with
-         | XI p0 ->
-           (match p0 with
-            | XI p1 ->
-              (match p1 with
-               | XO p2 ->
-                 (match p2 with
-                  | XI p3 ->
-                    (match p3 with
-                     | XO p4 ->
-                       (match p4 with
-                        | XH ->
-                          let sign = Zpos XH in
-                          if is_inf r
-                          then sw (Zpos (XO (XO (XO (XO (XO (XO XH)))))))
-                                 (Z.mul
-                                   (Z.sub
-                                     (Z.pow (Zpos (XO XH)) (Zpos (XI (XI (XI
-                                       (XI (XI XH))))))) (Zpos XH)) sign)
-                          else sw (Zpos (XO (XO (XO (XO (XO (XO XH)))))))
-                                 (Z.mul (atoi_digits r Z0) sign)
-                        | _ ->
-                          let sign = Zpos XH in
-                          if is_inf s0
-                          then sw (Zpos (XO (XO (XO (XO (XO (XO XH)))))))
-                                 (Z.mul
-                                   (Z.sub
-                                     (Z.pow (Zpos (XO XH)) (Zpos (XI (XI (XI
-                                       (XI (XI XH))))))) (Zpos XH)) sign)
-                          else sw (Zpos (XO (XO (XO (XO (XO (XO XH)))))))
-                                 (Z.mul (atoi_digits s0 Z0) sign))
-                     | _ ->
-                       let sign = Zpos XH in
-                       if is_inf s0
-                       then sw (Zpos (XO (XO (XO (XO (XO (XO XH)))))))
-                              (Z.mul
-                                (Z.sub
-                                  (Z.pow (Zpos (XO XH)) (Zpos (XI (XI (XI (XI
-                                    (XI XH))))))) (Zpos XH)) sign)
-                       else sw (Zpos (XO (XO (XO (XO (XO (XO XH)))))))
-                              (Z.mul (atoi_digits s0 Z0) sign))
-                  | _ ->
-                    let sign = Zpos XH in
-                    if is_inf s0
-                    then sw (Zpos (XO (XO (XO (XO (XO (XO XH)))))))
-                           (Z.mul
-                             (Z.sub
-                               (Z.pow (Zpos (XO XH)) (Zpos (XI (XI (XI (XI
-                                 (XI XH))))))) (Zpos XH)) sign)
-                    else sw (Zpos (XO (XO (XO (XO (XO (XO XH)))))))
-                           (Z.mul (atoi_digits s0 Z0) sign))
-               | _ ->
-                 let sign = Zpos XH in
-                 if is_inf s0
-                 then sw (Zpos (XO (XO (XO (XO (XO (XO XH)))))))
-                        (Z.mul
-                          (Z.sub
-                            (Z.pow (Zpos (XO XH)) (Zpos (XI (XI (XI (XI (XI
-                              XH))))))) (Zpos XH)) sign)
-                 else sw (Zpos (XO (XO (XO (XO (XO (XO XH)))))))
-                        (Z.mul (atoi_digits s0 Z0) sign))
-            | XO p1 ->
-              (match p1 with
-               | XI p2 ->
-                 (match p2 with
-                  | XI p3 ->
-                    (match p3 with
-                     | XO p4 ->
-                       (match p4 with
-                        | XH ->
-                          let sign = Zneg XH in
-                          if is_inf r
-                          then sw (Zpos (XO (XO (XO (XO (XO (XO XH)))))))
-                                 (Z.mul
-                                   (Z.sub
-                                     (Z.pow (Zpos (XO XH)) (Zpos (XI (XI (XI
-                                       (XI (XI XH))))))) (Zpos XH)) sign)
-                          else sw (Zpos (XO (XO (XO (XO (XO (XO XH)))))))
-                                 (Z.mul (atoi_digits r Z0) sign)
-                        | _ ->
-                          let sign = Zpos XH in
-                          if is_inf s0
-                          then sw (Zpos (XO (XO (XO (XO (XO (XO XH)))))))
-                                 (Z.mul
-                                   (Z.sub
-                                     (Z.pow (Zpos (XO XH)) (Zpos (XI (XI (XI
-                                       (XI (XI XH))))))) (Zpos XH)) sign)
-                          else sw (Zpos (XO (XO (XO (XO (XO (XO XH)))))))
-                                 (Z.mul (atoi_digits s0 Z0) sign))
-                     | _ ->
-                       let sign = Zpos XH in
-                       if is_inf s0
-                       then sw (Zpos (XO (XO (XO (XO (XO (XO XH)))))))
-                              (Z.mul
-                                (Z.sub
-                                  (Z.pow (Zpos (XO XH)) (Zpos (XI (XI (XI (XI
-                                    (XI XH))))))) (Zpos XH)) sign)
-                       else sw (Zpos (XO (XO (XO (XO (XO (XO XH)))))))
-                              (Z.mul (atoi_digits s0 Z0) sign))
-                  | _ ->
-                    let sign = Zpos XH in
-                    if is_inf s0
-                    then sw (Zpos (XO (XO (XO (XO (XO (XO XH)))))))
-                           (Z.mul
-                             (Z.sub
-                               (Z.pow (Zpos (XO XH)) (Zpos (XI (XI (XI (XI
-                                 (XI XH))))))) (Zpos XH)) sign)
-                    else sw (Zpos (XO (XO (XO (XO (XO (XO XH)))))))
-                           (Z.mul (atoi_digits s0 Z0) sign))
-               | _ ->
-                 let sign = Zpos XH in
-                 if is_inf s0
-                 then sw (Zpos (XO (XO (XO (XO (XO (XO XH)))))))
-                        (Z.mul
-                          (Z.sub
-                            (Z.pow (Zpos (XO XH)) (Zpos (XI (XI (XI (XI (XI
-                              XH))))))) (Zpos XH)) sign)
-                 else sw (Zpos (XO (XO (XO (XO (XO (XO XH)))))))
-                        (Z.mul (atoi_digits s0 Z0) sign))
-            | XH ->
-              let sign = Zpos XH in
-              if is_inf s0
-              then sw (Zpos (XO (XO (XO (XO (XO (XO XH)))))))
-                     (Z.mul
-                       (Z.sub
-                         (Z.pow (Zpos (XO XH)) (Zpos (XI (XI (XI (XI (XI
-                           XH))))))) (Zpos XH)) sign)
-              else sw (Zpos (XO (XO (XO (XO (XO (XO XH)))))))
-                     (Z.mul (atoi_digits s0 Z0) sign))
-         | _ ->
-           let sign = Zpos XH in
-           if is_inf s0
-           then sw (Zpos (XO (XO (XO (XO (XO (XO XH)))))))
-                  (Z.mul
-                    (Z.sub
-                      (Z.pow (Zpos (XO XH)) (Zpos (XI (XI (XI (XI (XI
-                        XH))))))) (Zpos XH)) sign)
-           else sw (Zpos (XO (XO (XO (XO (XO (XO XH)))))))
-                  (Z.mul (atoi_digits s0 Z0) sign))
-      | _ ->
-        let sign = Zpos XH in
-        if is_inf s0
-        then sw (Zpos (XO (XO (XO (XO (XO (XO XH)))))))
-               (Z.mul
-                 (Z.sub
-                   (Z.pow (Zpos (XO XH)) (Zpos (XI (XI (XI (XI (XI XH)))))))
-                   (Zpos XH)) sign)
-        else sw (Zpos (XO (XO (XO (XO (XO (XO XH)))))))
-               (Z.mul (atoi_digits s0 Z0) sign)))
+             | _ :: l0 -> skipn n1 l0)
 
 type jval =
 | JNull
@@ -990,2324 +677,1157 @@ let rec bytes_eqb a b =
      | [] -> false
      | y :: b' -> (&&) (Z.eqb x y) (bytes_eqb a' b'))
 
-type jty =
-| TNone
-| TNull
-| TBool
-| TI64
-| TF64
-| TStr
-| TObj
-| TArr
+(** val jbinn_BINN_LIST : z **)
 
-(** val ty_code : jty -> z **)
+let jbinn_BINN_LIST =
+  Zpos (XO (XO (XO (XO (XO (XI (XI XH)))))))
 
-let ty_code = function
-| TNone -> jP_JBV_NONE
-| TNull -> jP_JBV_NULL
-| TBool -> jP_JBV_BOOL
-| TI64 -> jP_JBV_I64
-| TF64 -> jP_JBV_F64
-| TStr -> jP_JBV_STR
-| TObj -> jP_JBV_OBJECT
-| TArr -> jP_JBV_ARRAY
+(** val jbinn_BINN_MAP : z **)
 
-(** val ty_eqb : jty -> jty -> bool **)
+let jbinn_BINN_MAP =
+  Zpos (XI (XO (XO (XO (XO (XI (XI XH)))))))
 
-let ty_eqb a b =
-  Z.eqb (ty_code a) (ty_code b)
+(** val jbinn_BINN_OBJECT : z **)
 
-(** val is_container : jty -> bool **)
+let jbinn_BINN_OBJECT =
+  Zpos (XO (XI (XO (XO (XO (XI (XI XH)))))))
 
-let is_container t =
-  Z.leb jP_JBV_OBJECT (ty_code t)
+(** val jbinn_BINN_NULL : z **)
 
-type node =
-| Node of z * z list * jty * z * z list * node list
+let jbinn_BINN_NULL =
+  Z0
 
-(** val n_kl : node -> z **)
+(** val jbinn_BINN_TRUE : z **)
 
-let n_kl = function
-| Node (kl, _, _, _, _, _) -> kl
+let jbinn_BINN_TRUE =
+  Zpos XH
 
-(** val n_key : node -> z list **)
+(** val jbinn_BINN_FALSE : z **)
 
-let n_key = function
-| Node (_, k, _, _, _, _) -> k
+let jbinn_BINN_FALSE =
+  Zpos (XO XH)
 
-(** val n_ty : node -> jty **)
+(** val jbinn_BINN_BOOL : z **)
 
-let n_ty = function
-| Node (_, _, t, _, _, _) -> t
+let jbinn_BINN_BOOL =
+  Zpos (XI (XO (XO (XO (XO (XI (XI (XO (XO (XO (XO (XO (XO (XO (XO (XO (XO
+    (XO (XO XH)))))))))))))))))))
 
-(** val n_vi : node -> z **)
+(** val jbinn_BINN_UINT8 : z **)
 
-let n_vi = function
-| Node (_, _, _, v, _, _) -> v
+let jbinn_BINN_UINT8 =
+  Zpos (XO (XO (XO (XO (XO XH)))))
 
-(** val n_vs : node -> z list **)
+(** val jbinn_BINN_INT8 : z **)
 
-let n_vs = function
-| Node (_, _, _, _, s, _) -> s
+let jbinn_BINN_INT8 =
+  Zpos (XI (XO (XO (XO (XO XH)))))
 
-(** val n_ch : node -> node list **)
+(** val jbinn_BINN_UINT16 : z **)
 
-let n_ch = function
-| Node (_, _, _, _, _, c) -> c
+let jbinn_BINN_UINT16 =
+  Zpos (XO (XO (XO (XO (XO (XO XH))))))
 
-(** val set_kl : node -> z -> node **)
+(** val jbinn_BINN_INT16 : z **)
 
-let set_kl n kl =
-  let Node (_, k, t, v, s, c) = n in Node (kl, k, t, v, s, c)
+let jbinn_BINN_INT16 =
+  Zpos (XI (XO (XO (XO (XO (XO XH))))))
 
-(** val set_key : node -> z list -> node **)
+(** val jbinn_BINN_UINT32 : z **)
 
-let set_key n k =
-  let Node (kl, _, t, v, s, c) = n in Node (kl, k, t, v, s, c)
+let jbinn_BINN_UINT32 =
+  Zpos (XO (XO (XO (XO (XO (XI XH))))))
 
-(** val set_ch : node -> node list -> node **)
+(** val jbinn_BINN_INT32 : z **)
 
-let set_ch n c =
-  let Node (kl, k, t, v, s, _) = n in Node (kl, k, t, v, s, c)
+let jbinn_BINN_INT32 =
+  Zpos (XI (XO (XO (XO (XO (XI XH))))))
 
-(** val copy_data : node -> node -> node **)
+(** val jbinn_BINN_UINT64 : z **)
 
-let copy_data target value =
-  let Node (kl, k, _, _, _, _) = target in
-  Node (kl, k, (n_ty value), (n_vi value), (n_vs value), (n_ch value))
+let jbinn_BINN_UINT64 =
+  Zpos (XO (XO (XO (XO (XO (XO (XO XH)))))))
 
-(** val zero_node : node **)
+(** val jbinn_BINN_INT64 : z **)
 
-let zero_node =
-  Node (Z0, [], TNone, Z0, [], [])
+let jbinn_BINN_INT64 =
+  Zpos (XI (XO (XO (XO (XO (XO (XO XH)))))))
 
-type seg = z list
+(** val jbinn_BINN_FLOAT32 : z **)
 
-(** val is_dash : seg -> bool **)
+let jbinn_BINN_FLOAT32 =
+  Zpos (XO (XI (XO (XO (XO (XI XH))))))
 
-let is_dash = function
-| [] -> false
-| z0 :: l ->
-  (match z0 with
-   | Zpos p ->
-     (match p with
-      | XI p0 ->
-        (match p0 with
-         | XO p1 ->
-           (match p1 with
-            | XI p2 ->
-              (match p2 with
-               | XI p3 ->
-                 (match p3 with
-                  | XO p4 ->
-                    (match p4 with
-                     | XH -> (match l with
-                              | [] -> true
-                              | _ :: _ -> false)
-                     | _ -> false)
-                  | _ -> false)
-               | _ -> false)
-            | _ -> false)
-         | _ -> false)
-      | _ -> false)
-   | _ -> false)
+(** val jbinn_BINN_FLOAT64 : z **)
 
-(** val strncmp_eq : z list -> z list -> nat -> bool **)
+let jbinn_BINN_FLOAT64 =
+  Zpos (XO (XI (XO (XO (XO (XO (XO XH)))))))
 
-let rec strncmp_eq a b = function
+(** val jbinn_BINN_DOUBLE : z **)
+
+let jbinn_BINN_DOUBLE =
+  Zpos (XO (XI (XO (XO (XO (XO (XO XH)))))))
+
+(** val jbinn_BINN_STRING : z **)
+
+let jbinn_BINN_STRING =
+  Zpos (XO (XO (XO (XO (XO (XI (XO XH)))))))
+
+(** val jbinn_STORAGE_NOBYTES : z **)
+
+let jbinn_STORAGE_NOBYTES =
+  Z0
+
+(** val jbinn_STORAGE_BYTE : z **)
+
+let jbinn_STORAGE_BYTE =
+  Zpos (XO (XO (XO (XO (XO XH)))))
+
+(** val jbinn_STORAGE_WORD : z **)
+
+let jbinn_STORAGE_WORD =
+  Zpos (XO (XO (XO (XO (XO (XO XH))))))
+
+(** val jbinn_STORAGE_DWORD : z **)
+
+let jbinn_STORAGE_DWORD =
+  Zpos (XO (XO (XO (XO (XO (XI XH))))))
+
+(** val jbinn_STORAGE_QWORD : z **)
+
+let jbinn_STORAGE_QWORD =
+  Zpos (XO (XO (XO (XO (XO (XO (XO XH)))))))
+
+(** val jbinn_STORAGE_STRING : z **)
+
+let jbinn_STORAGE_STRING =
+  Zpos (XO (XO (XO (XO (XO (XI (XO XH)))))))
+
+(** val jbinn_STORAGE_BLOB : z **)
+
+let jbinn_STORAGE_BLOB =
+  Zpos (XO (XO (XO (XO (XO (XO (XI XH)))))))
+
+(** val jbinn_STORAGE_CONTAINER : z **)
+
+let jbinn_STORAGE_CONTAINER =
+  Zpos (XO (XO (XO (XO (XO (XI (XI XH)))))))
+
+(** val jbinn_STORAGE_MASK : z **)
+
+let jbinn_STORAGE_MASK =
+  Zpos (XO (XO (XO (XO (XO (XI (XI XH)))))))
+
+(** val jbinn_STORAGE_HAS_MORE : z **)
+
+let jbinn_STORAGE_HAS_MORE =
+  Zpos (XO (XO (XO (XO XH))))
+
+(** val jbinn_MIN_BINN_SIZE : z **)
+
+let jbinn_MIN_BINN_SIZE =
+  Zpos (XI XH)
+
+(** val jbinn_MAX_BIN_KEY_LEN : z **)
+
+let jbinn_MAX_BIN_KEY_LEN =
+  Zpos (XI (XI (XI (XI (XI (XI (XI XH)))))))
+
+(** val jbinn_JBL_MAX_NESTING_LEVEL : z **)
+
+let jbinn_JBL_MAX_NESTING_LEVEL =
+  Zpos (XI (XI (XI (XO (XO (XI (XI (XI (XI XH)))))))))
+
+(** val jbinn_sizeof_int : z **)
+
+let jbinn_sizeof_int =
+  Zpos (XO (XO XH))
+
+(** val jbinn_UINT8_MAX : z **)
+
+let jbinn_UINT8_MAX =
+  Zpos (XI (XI (XI (XI (XI (XI (XI XH)))))))
+
+(** val jbinn_UINT16_MAX : z **)
+
+let jbinn_UINT16_MAX =
+  Zpos (XI (XI (XI (XI (XI (XI (XI (XI (XI (XI (XI (XI (XI (XI (XI
+    XH)))))))))))))))
+
+(** val jbinn_UINT32_MAX : z **)
+
+let jbinn_UINT32_MAX =
+  Zpos (XI (XI (XI (XI (XI (XI (XI (XI (XI (XI (XI (XI (XI (XI (XI (XI (XI
+    (XI (XI (XI (XI (XI (XI (XI (XI (XI (XI (XI (XI (XI (XI
+    XH)))))))))))))))))))))))))))))))
+
+(** val jbinn_INT8_MIN : z **)
+
+let jbinn_INT8_MIN =
+  Zneg (XO (XO (XO (XO (XO (XO (XO XH)))))))
+
+(** val jbinn_INT16_MIN : z **)
+
+let jbinn_INT16_MIN =
+  Zneg (XO (XO (XO (XO (XO (XO (XO (XO (XO (XO (XO (XO (XO (XO (XO
+    XH)))))))))))))))
+
+(** val jbinn_INT32_MIN : z **)
+
+let jbinn_INT32_MIN =
+  Zneg (XO (XO (XO (XO (XO (XO (XO (XO (XO (XO (XO (XO (XO (XO (XO (XO (XO
+    (XO (XO (XO (XO (XO (XO (XO (XO (XO (XO (XO (XO (XO (XO
+    XH)))))))))))))))))))))))))))))))
+
+(** val jbinn_STRING_KEEPS_NUL : z **)
+
+let jbinn_STRING_KEEPS_NUL =
+  Zpos XH
+
+(** val be_bytes : nat -> z -> z list **)
+
+let rec be_bytes n0 v =
+  match n0 with
+  | O -> []
+  | S k ->
+    (Z.modulo
+      (Z.div v
+        (Z.pow (Zpos (XO XH)) (Z.mul (Zpos (XO (XO (XO XH)))) (Z.of_nat k))))
+      (Zpos (XO (XO (XO (XO (XO (XO (XO (XO XH)))))))))) :: (be_bytes k v)
+
+(** val be_val : nat -> z list -> z option **)
+
+let rec be_val n0 bs =
+  match n0 with
+  | O -> Some Z0
+  | S k ->
+    (match bs with
+     | [] -> None
+     | b :: r ->
+       (match be_val k r with
+        | Some v ->
+          Some
+            (Z.add
+              (Z.mul b
+                (Z.pow (Zpos (XO XH))
+                  (Z.mul (Zpos (XO (XO (XO XH)))) (Z.of_nat k)))) v)
+        | None -> None))
+
+(** val cstr : z list -> z list **)
+
+let rec cstr = function
+| [] -> []
+| c :: r -> if Z.eqb c Z0 then [] else c :: (cstr r)
+
+(** val zlen : 'a1 list -> z **)
+
+let zlen l =
+  Z.of_nat (length l)
+
+(** val zskip : z -> 'a1 list -> 'a1 list **)
+
+let zskip n0 l =
+  skipn (Z.to_nat n0) l
+
+(** val zfirst : z -> 'a1 list -> 'a1 list **)
+
+let zfirst n0 l =
+  firstn (Z.to_nat n0) l
+
+(** val tolower : z -> z **)
+
+let tolower c =
+  if (&&) (Z.leb (Zpos (XI (XO (XO (XO (XO (XO XH))))))) c)
+       (Z.leb c (Zpos (XO (XI (XO (XI (XI (XO XH))))))))
+  then Z.add c (Zpos (XO (XO (XO (XO (XO XH))))))
+  else c
+
+(** val strnieq : z list -> z list -> nat -> bool **)
+
+let rec strnieq a b = function
 | O -> true
-| S n' ->
+| S k ->
   (match a with
-   | [] -> (match b with
-            | [] -> true
-            | _ :: _ -> false)
+   | [] -> false
    | x :: a' ->
      (match b with
       | [] -> false
-      | y :: b' -> (&&) (Z.eqb x y) (strncmp_eq a' b' n')))
+      | y :: b' ->
+        if Z.eqb (tolower x) (tolower y)
+        then if Z.eqb x Z0 then true else strnieq a' b' k
+        else false))
 
-(** val key_match : seg -> node -> bool **)
+(** val rd_field : z list -> (z * z) option **)
 
-let key_match seg0 c =
-  (&&) (strncmp_eq (n_key c) seg0 (Z.to_nat (n_kl c)))
-    (Z.eqb (Z.of_nat (length seg0)) (n_kl c))
-
-(** val find_pos : (node -> bool) -> node list -> nat option **)
-
-let rec find_pos f = function
+let rd_field p = match p with
 | [] -> None
-| x :: r ->
-  if f x
-  then Some O
-  else (match find_pos f r with
-        | Some i -> Some (S i)
+| b :: _ ->
+  if negb
+       (Z.eqb (Z.coq_land b (Zpos (XO (XO (XO (XO (XO (XO (XO XH))))))))) Z0)
+  then (match be_val (S (S (S (S O)))) p with
+        | Some v ->
+          Some
+            ((Z.coq_land v (Zpos (XI (XI (XI (XI (XI (XI (XI (XI (XI (XI (XI
+               (XI (XI (XI (XI (XI (XI (XI (XI (XI (XI (XI (XI (XI (XI (XI
+               (XI (XI (XI (XI XH)))))))))))))))))))))))))))))))), (Zpos (XO
+            (XO XH))))
+        | None -> None)
+  else Some (b, (Zpos XH))
+
+(** val read_hdr : z list -> (((z * z) * z) * z) option **)
+
+let read_hdr = function
+| [] -> None
+| byte :: p1 ->
+  if negb (Z.eqb (Z.coq_land byte jbinn_STORAGE_MASK) jbinn_STORAGE_CONTAINER)
+  then None
+  else if negb (Z.eqb (Z.coq_land byte jbinn_STORAGE_HAS_MORE) Z0)
+       then None
+       else if negb
+                 ((||)
+                   ((||) (Z.eqb byte jbinn_BINN_LIST)
+                     (Z.eqb byte jbinn_BINN_MAP))
+                   (Z.eqb byte jbinn_BINN_OBJECT))
+            then None
+            else (match rd_field p1 with
+                  | Some p0 ->
+                    let (size, k1) = p0 in
+                    (match rd_field (zskip k1 p1) with
+                     | Some p2 ->
+                       let (count, k2) = p2 in
+                       if Z.ltb size jbinn_MIN_BINN_SIZE
+                       then None
+                       else Some (((byte, size), count),
+                              (Z.add (Z.add (Zpos XH) k1) k2))
+                     | None -> None)
+                  | None -> None)
+
+(** val advance : z list -> z -> (z list * z) option **)
+
+let advance p rem =
+  if Z.leb rem Z0
+  then None
+  else (match p with
+        | [] -> None
+        | byte :: p1 ->
+          let st = Z.coq_land byte jbinn_STORAGE_MASK in
+          let p2 =
+            if negb (Z.eqb (Z.coq_land byte jbinn_STORAGE_HAS_MORE) Z0)
+            then zskip (Zpos XH) p1
+            else p1
+          in
+          let r2 =
+            if negb (Z.eqb (Z.coq_land byte jbinn_STORAGE_HAS_MORE) Z0)
+            then Z.sub rem (Zpos (XO XH))
+            else Z.sub rem (Zpos XH)
+          in
+          let fin = fun k ->
+            if Z.leb (Z.sub r2 k) Z0
+            then None
+            else Some ((zskip k p2), (Z.sub r2 k))
+          in
+          if Z.eqb st jbinn_STORAGE_NOBYTES
+          then fin Z0
+          else if Z.eqb st jbinn_STORAGE_BYTE
+               then fin (Zpos XH)
+               else if Z.eqb st jbinn_STORAGE_WORD
+                    then fin (Zpos (XO XH))
+                    else if Z.eqb st jbinn_STORAGE_DWORD
+                         then fin (Zpos (XO (XO XH)))
+                         else if Z.eqb st jbinn_STORAGE_QWORD
+                              then fin (Zpos (XO (XO (XO XH))))
+                              else if Z.eqb st jbinn_STORAGE_BLOB
+                                   then if Z.leb
+                                             (Z.sub r2
+                                               (Z.sub jbinn_sizeof_int (Zpos
+                                                 XH))) Z0
+                                        then None
+                                        else (match be_val (S (S (S (S O))))
+                                                      p2 with
+                                              | Some dsize ->
+                                                fin
+                                                  (Z.add (Zpos (XO (XO XH)))
+                                                    dsize)
+                                              | None -> None)
+                                   else if Z.eqb st jbinn_STORAGE_CONTAINER
+                                        then if Z.leb r2 Z0
+                                             then None
+                                             else (match p2 with
+                                                   | [] -> None
+                                                   | d :: _ ->
+                                                     if negb
+                                                          (Z.eqb
+                                                            (Z.coq_land d
+                                                              (Zpos (XO (XO
+                                                              (XO (XO (XO (XO
+                                                              (XO XH)))))))))
+                                                            Z0)
+                                                     then if Z.leb
+                                                               (Z.sub r2
+                                                                 (Z.sub
+                                                                   jbinn_sizeof_int
+                                                                   (Zpos XH)))
+                                                               Z0
+                                                          then None
+                                                          else (match 
+                                                                be_val (S (S
+                                                                  (S (S O))))
+                                                                  p2 with
+                                                                | Some v ->
+                                                                  fin
+                                                                    (Z.sub
+                                                                    (Z.coq_land
+                                                                    v (Zpos
+                                                                    (XI (XI
+                                                                    (XI (XI
+                                                                    (XI (XI
+                                                                    (XI (XI
+                                                                    (XI (XI
+                                                                    (XI (XI
+                                                                    (XI (XI
+                                                                    (XI (XI
+                                                                    (XI (XI
+                                                                    (XI (XI
+                                                                    (XI (XI
+                                                                    (XI (XI
+                                                                    (XI (XI
+                                                                    (XI (XI
+                                                                    (XI (XI
+                                                                    XH))))))))))))))))))))))))))))))))
+                                                                    (Zpos XH))
+                                                                | None -> None)
+                                                     else fin
+                                                            (Z.sub d (Zpos
+                                                              XH)))
+                                        else if Z.eqb st jbinn_STORAGE_STRING
+                                             then if Z.leb r2 Z0
+                                                  then None
+                                                  else (match p2 with
+                                                        | [] -> None
+                                                        | d :: _ ->
+                                                          if negb
+                                                               (Z.eqb
+                                                                 (Z.coq_land
+                                                                   d (Zpos
+                                                                   (XO (XO
+                                                                   (XO (XO
+                                                                   (XO (XO
+                                                                   (XO
+                                                                   XH)))))))))
+                                                                 Z0)
+                                                          then if Z.leb
+                                                                    (Z.sub r2
+                                                                    (Z.sub
+                                                                    jbinn_sizeof_int
+                                                                    (Zpos XH)))
+                                                                    Z0
+                                                               then None
+                                                               else (match 
+                                                                    be_val (S
+                                                                    (S (S (S
+                                                                    O)))) p2 with
+                                                                    | Some v ->
+                                                                    fin
+                                                                    (Z.add
+                                                                    (Z.add
+                                                                    (Zpos (XO
+                                                                    (XO XH)))
+                                                                    (Z.coq_land
+                                                                    v (Zpos
+                                                                    (XI (XI
+                                                                    (XI (XI
+                                                                    (XI (XI
+                                                                    (XI (XI
+                                                                    (XI (XI
+                                                                    (XI (XI
+                                                                    (XI (XI
+                                                                    (XI (XI
+                                                                    (XI (XI
+                                                                    (XI (XI
+                                                                    (XI (XI
+                                                                    (XI (XI
+                                                                    (XI (XI
+                                                                    (XI (XI
+                                                                    (XI (XI
+                                                                    XH)))))))))))))))))))))))))))))))))
+                                                                    (Zpos XH))
+                                                                    | None ->
+                                                                    None)
+                                                          else fin
+                                                                 (Z.add
+                                                                   (Z.add
+                                                                    (Zpos XH)
+                                                                    d) (Zpos
+                                                                   XH)))
+                                             else None)
+
+type bval = { bt : z; bnum : z; bsize : z; bcount : z; bptr : z list }
+
+(** val get_value : z list -> bval option **)
+
+let get_value p = match p with
+| [] -> None
+| byte :: p1 ->
+  let st = Z.coq_land byte jbinn_STORAGE_MASK in
+  let more = negb (Z.eqb (Z.coq_land byte jbinn_STORAGE_HAS_MORE) Z0) in
+  if more
+  then (match p1 with
+        | [] -> None
+        | b2 :: p1' ->
+          let p0 =
+            ((Z.add
+               (Z.mul byte (Zpos (XO (XO (XO (XO (XO (XO (XO (XO XH))))))))))
+               b2), p1')
+          in
+          let (ty, q) = p0 in
+          let conv = fun b ->
+            if Z.eqb b.bt jbinn_BINN_TRUE
+            then Some { bt = jbinn_BINN_BOOL; bnum = (Zpos XH); bsize =
+                   b.bsize; bcount = b.bcount; bptr = [] }
+            else if Z.eqb b.bt jbinn_BINN_FALSE
+                 then Some { bt = jbinn_BINN_BOOL; bnum = Z0; bsize =
+                        b.bsize; bcount = b.bcount; bptr = [] }
+                 else Some b
+          in
+          let num = fun k ->
+            match be_val k q with
+            | Some v ->
+              conv { bt = ty; bnum = v; bsize = Z0; bcount = Z0; bptr = [] }
+            | None -> None
+          in
+          if Z.eqb st jbinn_STORAGE_NOBYTES
+          then conv { bt = ty; bnum = Z0; bsize = Z0; bcount = Z0; bptr = [] }
+          else if Z.eqb st jbinn_STORAGE_BYTE
+               then num (S O)
+               else if Z.eqb st jbinn_STORAGE_WORD
+                    then num (S (S O))
+                    else if Z.eqb st jbinn_STORAGE_DWORD
+                         then num (S (S (S (S O))))
+                         else if Z.eqb st jbinn_STORAGE_QWORD
+                              then num (S (S (S (S (S (S (S (S O))))))))
+                              else if Z.eqb st jbinn_STORAGE_BLOB
+                                   then (match be_val (S (S (S (S O)))) q with
+                                         | Some v ->
+                                           conv { bt = ty; bnum = Z0; bsize =
+                                             v; bcount = Z0; bptr =
+                                             (zskip (Zpos (XO (XO XH))) q) }
+                                         | None -> None)
+                                   else if Z.eqb st jbinn_STORAGE_CONTAINER
+                                        then (match read_hdr p with
+                                              | Some p2 ->
+                                                let (p3, _) = p2 in
+                                                let (p4, count) = p3 in
+                                                let (_, size) = p4 in
+                                                conv { bt = ty; bnum = Z0;
+                                                  bsize = size; bcount =
+                                                  count; bptr = p }
+                                              | None -> None)
+                                        else if Z.eqb st jbinn_STORAGE_STRING
+                                             then (match rd_field q with
+                                                   | Some p2 ->
+                                                     let (dsz, k) = p2 in
+                                                     conv { bt = ty; bnum =
+                                                       Z0; bsize = dsz;
+                                                       bcount = Z0; bptr =
+                                                       (zskip k q) }
+                                                   | None -> None)
+                                             else None)
+  else let p0 = (byte, p1) in
+       let (ty, q) = p0 in
+       let conv = fun b ->
+         if Z.eqb b.bt jbinn_BINN_TRUE
+         then Some { bt = jbinn_BINN_BOOL; bnum = (Zpos XH); bsize = b.bsize;
+                bcount = b.bcount; bptr = [] }
+         else if Z.eqb b.bt jbinn_BINN_FALSE
+              then Some { bt = jbinn_BINN_BOOL; bnum = Z0; bsize = b.bsize;
+                     bcount = b.bcount; bptr = [] }
+              else Some b
+       in
+       let num = fun k ->
+         match be_val k q with
+         | Some v ->
+           conv { bt = ty; bnum = v; bsize = Z0; bcount = Z0; bptr = [] }
+         | None -> None
+       in
+       if Z.eqb st jbinn_STORAGE_NOBYTES
+       then conv { bt = ty; bnum = Z0; bsize = Z0; bcount = Z0; bptr = [] }
+       else if Z.eqb st jbinn_STORAGE_BYTE
+            then num (S O)
+            else if Z.eqb st jbinn_STORAGE_WORD
+                 then num (S (S O))
+                 else if Z.eqb st jbinn_STORAGE_DWORD
+                      then num (S (S (S (S O))))
+                      else if Z.eqb st jbinn_STORAGE_QWORD
+                           then num (S (S (S (S (S (S (S (S O))))))))
+                           else if Z.eqb st jbinn_STORAGE_BLOB
+                                then (match be_val (S (S (S (S O)))) q with
+                                      | Some v ->
+                                        conv { bt = ty; bnum = Z0; bsize = v;
+                                          bcount = Z0; bptr =
+                                          (zskip (Zpos (XO (XO XH))) q) }
+                                      | None -> None)
+                                else if Z.eqb st jbinn_STORAGE_CONTAINER
+                                     then (match read_hdr p with
+                                           | Some p2 ->
+                                             let (p3, _) = p2 in
+                                             let (p4, count) = p3 in
+                                             let (_, size) = p4 in
+                                             conv { bt = ty; bnum = Z0;
+                                               bsize = size; bcount = count;
+                                               bptr = p }
+                                           | None -> None)
+                                     else if Z.eqb st jbinn_STORAGE_STRING
+                                          then (match rd_field q with
+                                                | Some p2 ->
+                                                  let (dsz, k) = p2 in
+                                                  conv { bt = ty; bnum = Z0;
+                                                    bsize = dsz; bcount = Z0;
+                                                    bptr = (zskip k q) }
+                                                | None -> None)
+                                          else None
+
+type biter = { it_p : (z list * z) option; it_cur : z; it_cnt : z; it_type : z }
+
+(** val iter_init : z list -> z -> biter option **)
+
+let iter_init ptr expected =
+  match read_hdr ptr with
+  | Some p ->
+    let (p0, hs) = p in
+    let (p1, count) = p0 in
+    let (ty, size) = p1 in
+    if negb (Z.eqb ty expected)
+    then None
+    else Some { it_p = (Some ((zskip hs ptr), (Z.sub size hs))); it_cur = Z0;
+           it_cnt = count; it_type = ty }
+  | None -> None
+
+(** val list_next : biter -> (bval * biter) option **)
+
+let list_next it =
+  match it.it_p with
+  | Some p0 ->
+    let (p, rem) = p0 in
+    if (||) ((||) (Z.leb rem Z0) (Z.gtb it.it_cur it.it_cnt))
+         (negb (Z.eqb it.it_type jbinn_BINN_LIST))
+    then None
+    else let cur = Z.add it.it_cur (Zpos XH) in
+         if Z.gtb cur it.it_cnt
+         then None
+         else (match get_value p with
+               | Some b ->
+                 Some (b, { it_p = (advance p rem); it_cur = cur; it_cnt =
+                   it.it_cnt; it_type = it.it_type })
+               | None -> None)
+  | None -> None
+
+(** val object_next : biter -> ((z list * bval) * biter) option **)
+
+let object_next it =
+  match it.it_p with
+  | Some p0 ->
+    let (p, rem) = p0 in
+    if (||) ((||) (Z.leb rem Z0) (Z.gtb it.it_cur it.it_cnt))
+         (negb (Z.eqb it.it_type jbinn_BINN_OBJECT))
+    then None
+    else let cur = Z.add it.it_cur (Zpos XH) in
+         if Z.gtb cur it.it_cnt
+         then None
+         else (match p with
+               | [] -> None
+               | len :: p1 ->
+                 let key = zfirst len p1 in
+                 let p2 = zskip len p1 in
+                 let r2 = Z.sub (Z.sub rem (Zpos XH)) len in
+                 if Z.leb r2 Z0
+                 then None
+                 else (match get_value p2 with
+                       | Some b ->
+                         Some ((key, b), { it_p = (advance p2 r2); it_cur =
+                           cur; it_cnt = it.it_cnt; it_type = it.it_type })
+                       | None -> None))
+  | None -> None
+
+(** val list_items : nat -> biter -> bval list **)
+
+let rec list_items n0 it =
+  match n0 with
+  | O -> []
+  | S k ->
+    (match list_next it with
+     | Some p -> let (b, it') = p in b :: (list_items k it')
+     | None -> [])
+
+(** val obj_items : nat -> biter -> (z list * bval) list **)
+
+let rec obj_items n0 it =
+  match n0 with
+  | O -> []
+  | S k ->
+    (match object_next it with
+     | Some p -> let (p0, it') = p in p0 :: (obj_items k it')
+     | None -> [])
+
+(** val iter_fuel : biter -> nat **)
+
+let iter_fuel it =
+  S (Z.to_nat it.it_cnt)
+
+(** val sx : z -> z -> z **)
+
+let sx bits v =
+  let m = Z.modulo v (Z.pow (Zpos (XO XH)) bits) in
+  if Z.geb m (Z.pow (Zpos (XO XH)) (Z.sub bits (Zpos XH)))
+  then Z.sub m (Z.pow (Zpos (XO XH)) bits)
+  else m
+
+(** val create_scalar : bval -> jval option **)
+
+let create_scalar b =
+  let t = b.bt in
+  if Z.eqb t jbinn_BINN_NULL
+  then Some JNull
+  else if Z.eqb t jbinn_BINN_STRING
+       then Some (JStr (zfirst b.bsize b.bptr))
+       else if Z.eqb t jbinn_BINN_TRUE
+            then Some (JBool true)
+            else if Z.eqb t jbinn_BINN_FALSE
+                 then Some (JBool false)
+                 else if Z.eqb t jbinn_BINN_BOOL
+                      then Some (JBool
+                             (negb
+                               (Z.eqb
+                                 (Z.modulo b.bnum
+                                   (Z.pow (Zpos (XO XH)) (Zpos (XO (XO (XO
+                                     (XO (XO XH)))))))) Z0)))
+                      else if Z.eqb t jbinn_BINN_UINT8
+                           then Some (JI64
+                                  (Z.modulo b.bnum
+                                    (Z.pow (Zpos (XO XH)) (Zpos (XO (XO (XO
+                                      XH)))))))
+                           else if Z.eqb t jbinn_BINN_UINT16
+                                then Some (JI64
+                                       (Z.modulo b.bnum
+                                         (Z.pow (Zpos (XO XH)) (Zpos (XO (XO
+                                           (XO (XO XH))))))))
+                                else if Z.eqb t jbinn_BINN_UINT32
+                                     then Some (JI64
+                                            (Z.modulo b.bnum
+                                              (Z.pow (Zpos (XO XH)) (Zpos (XO
+                                                (XO (XO (XO (XO XH)))))))))
+                                     else if Z.eqb t jbinn_BINN_UINT64
+                                          then Some (JI64
+                                                 (sx (Zpos (XO (XO (XO (XO
+                                                   (XO (XO XH))))))) b.bnum))
+                                          else if Z.eqb t jbinn_BINN_INT8
+                                               then Some (JI64
+                                                      (sx (Zpos (XO (XO (XO
+                                                        XH)))) b.bnum))
+                                               else if Z.eqb t
+                                                         jbinn_BINN_INT16
+                                                    then Some (JI64
+                                                           (sx (Zpos (XO (XO
+                                                             (XO (XO XH)))))
+                                                             b.bnum))
+                                                    else if Z.eqb t
+                                                              jbinn_BINN_INT32
+                                                         then Some (JI64
+                                                                (sx (Zpos (XO
+                                                                  (XO (XO (XO
+                                                                  (XO
+                                                                  XH))))))
+                                                                  b.bnum))
+                                                         else if Z.eqb t
+                                                                   jbinn_BINN_INT64
+                                                              then Some (JI64
+                                                                    (sx (Zpos
+                                                                    (XO (XO
+                                                                    (XO (XO
+                                                                    (XO (XO
+                                                                    XH)))))))
+                                                                    b.bnum))
+                                                              else if 
+                                                                    (||)
+                                                                    (Z.eqb t
+                                                                    jbinn_BINN_FLOAT32)
+                                                                    (Z.eqb t
+                                                                    jbinn_BINN_FLOAT64)
+                                                                   then 
+                                                                    Some
+                                                                    (JF64
+                                                                    b.bnum)
+                                                                   else None
+
+(** val dec_node : nat -> bval -> jval option **)
+
+let rec dec_node fuel b =
+  match fuel with
+  | O -> None
+  | S f ->
+    if Z.eqb b.bt jbinn_BINN_OBJECT
+    then (match iter_init b.bptr jbinn_BINN_OBJECT with
+          | Some it ->
+            (match let rec go = function
+                   | [] -> Some []
+                   | p :: r ->
+                     let (k, x) = p in
+                     (match dec_node f x with
+                      | Some v ->
+                        (match go r with
+                         | Some vs -> Some ((k, v) :: vs)
+                         | None -> None)
+                      | None -> None)
+                   in go (obj_items (iter_fuel it) it) with
+             | Some ms -> Some (JObj ms)
+             | None -> None)
+          | None -> None)
+    else if Z.eqb b.bt jbinn_BINN_MAP
+         then None
+         else if Z.eqb b.bt jbinn_BINN_LIST
+              then (match iter_init b.bptr jbinn_BINN_LIST with
+                    | Some it ->
+                      (match let rec go = function
+                             | [] -> Some []
+                             | x :: r ->
+                               (match dec_node f x with
+                                | Some v ->
+                                  (match go r with
+                                   | Some vs -> Some (v :: vs)
+                                   | None -> None)
+                                | None -> None)
+                             in go (list_items (iter_fuel it) it) with
+                       | Some vs -> Some (JArr vs)
+                       | None -> None)
+                    | None -> None)
+              else create_scalar b
+
+(** val root_bval : z list -> bval option **)
+
+let root_bval bs =
+  if Z.ltb (zlen bs) jbinn_MIN_BINN_SIZE
+  then None
+  else (match read_hdr bs with
+        | Some p ->
+          let (p0, _) = p in
+          let (p1, count) = p0 in
+          let (ty, size) = p1 in
+          if Z.gtb size (zlen bs)
+          then None
+          else Some { bt = ty; bnum = Z0; bsize = size; bcount = count;
+                 bptr = bs }
         | None -> None)
 
-(** val child_pos : node -> seg -> nat option **)
+(** val binn_decode : z list -> jval option **)
 
-let child_pos n s =
-  match n_ty n with
-  | TObj -> find_pos (key_match s) (n_ch n)
-  | TArr ->
-    if is_dash s
-    then (match n_ch n with
-          | [] -> None
-          | _ :: _ -> Some (pred (length (n_ch n))))
-    else find_pos (fun c -> Z.eqb (atoi s) (n_kl c)) (n_ch n)
-  | _ -> None
+let binn_decode bs =
+  match root_bval bs with
+  | Some b -> dec_node (S (length bs)) b
+  | None -> None
 
-(** val set_child : node -> nat -> node -> node **)
+(** val compress_int : z -> z * nat **)
 
-let set_child n i c =
-  set_ch n (app (firstn i (n_ch n)) (c :: (skipn (S i) (n_ch n))))
+let compress_int v =
+  if Z.geb v Z0
+  then if Z.leb v jbinn_UINT8_MAX
+       then (jbinn_BINN_UINT8, (S O))
+       else if Z.leb v jbinn_UINT16_MAX
+            then (jbinn_BINN_UINT16, (S (S O)))
+            else if Z.leb v jbinn_UINT32_MAX
+                 then (jbinn_BINN_UINT32, (S (S (S (S O)))))
+                 else (jbinn_BINN_INT64, (S (S (S (S (S (S (S (S O)))))))))
+  else if Z.geb v jbinn_INT8_MIN
+       then (jbinn_BINN_INT8, (S O))
+       else if Z.geb v jbinn_INT16_MIN
+            then (jbinn_BINN_INT16, (S (S O)))
+            else if Z.geb v jbinn_INT32_MIN
+                 then (jbinn_BINN_INT32, (S (S (S (S O)))))
+                 else (jbinn_BINN_INT64, (S (S (S (S (S (S (S (S O)))))))))
 
-(** val add_item : node -> node -> node **)
+(** val wr_field : z -> z list **)
 
-let add_item p c =
-  let c' =
-    match n_ty p with
-    | TArr ->
-      set_key
-        (set_kl c
-          (match rev (n_ch p) with
-           | [] -> Z0
-           | l :: _ -> Z.add (n_kl l) (Zpos XH))) []
-    | _ -> c
+let wr_field n0 =
+  if Z.gtb n0 (Zpos (XI (XI (XI (XI (XI (XI XH)))))))
+  then be_bytes (S (S (S (S O))))
+         (Z.coq_lor n0 (Zpos (XO (XO (XO (XO (XO (XO (XO (XO (XO (XO (XO (XO
+           (XO (XO (XO (XO (XO (XO (XO (XO (XO (XO (XO (XO (XO (XO (XO (XO
+           (XO (XO (XO XH)))))))))))))))))))))))))))))))))
+  else n0 :: []
+
+(** val save_header : z -> z list -> z -> z list option **)
+
+let save_header ty body count =
+  let size0 = Z.add (zlen body) jbinn_MIN_BINN_SIZE in
+  let size1 =
+    if Z.gtb count (Zpos (XI (XI (XI (XI (XI (XI XH)))))))
+    then Z.add size0 (Zpos (XI XH))
+    else size0
   in
-  set_ch p (app (n_ch p) (c' :: []))
+  let size2 =
+    if Z.gtb size1 (Zpos (XI (XI (XI (XI (XI (XI XH)))))))
+    then Z.add size1 (Zpos (XI XH))
+    else size1
+  in
+  if Z.gtb size2 (Zpos (XI (XI (XI (XI (XI (XI (XI (XI (XI (XI (XI (XI (XI
+       (XI (XI (XI (XI (XI (XI (XI (XI (XI (XI (XI (XI (XI (XI (XI (XI (XI
+       XH)))))))))))))))))))))))))))))))
+  then None
+  else Some (ty :: (app (wr_field size2) (app (wr_field count) body)))
 
-(** val dec_kl : node -> node **)
+(** val search_key : nat -> z list -> z -> z list -> bool **)
 
-let dec_kl n =
-  set_kl n (Z.sub (n_kl n) (Zpos XH))
+let rec search_key n0 p rem key =
+  match n0 with
+  | O -> false
+  | S k ->
+    (match p with
+     | [] -> false
+     | len :: p1 ->
+       let r1 = Z.sub rem (Zpos XH) in
+       if Z.leb r1 Z0
+       then false
+       else let next = fun q r ->
+              match advance q r with
+              | Some p0 -> let (q', r') = p0 in search_key k q' r' key
+              | None -> false
+            in
+            if Z.gtb len Z0
+            then if (&&) (strnieq p1 (app key (Z0 :: [])) (Z.to_nat len))
+                      (Z.eqb (zlen key) len)
+                 then true
+                 else if Z.leb (Z.sub r1 len) Z0
+                      then false
+                      else next (zskip len p1) (Z.sub r1 len)
+            else if Z.eqb len (zlen key) then true else next p1 r1)
 
-(** val inc_kl : node -> node **)
+(** val enc_item : jval -> z list option **)
 
-let inc_kl n =
-  set_kl n (Z.add (n_kl n) (Zpos XH))
-
-(** val remove_item : node -> nat -> node **)
-
-let remove_item p i =
-  set_ch p
-    (app (firstn i (n_ch p))
-      (match n_ty p with
-       | TArr -> map dec_kl (skipn (S i) (n_ch p))
-       | _ -> skipn (S i) (n_ch p)))
-
-(** val m_find : node -> seg list -> node option **)
-
-let rec m_find n = function
-| [] -> Some n
-| s :: r ->
-  (match child_pos n s with
-   | Some i ->
-     (match nth_error (n_ch n) i with
-      | Some c -> m_find c r
-      | None -> None)
-   | None -> None)
-
-(** val m_detach : node -> seg list -> (node * node) option **)
-
-let rec m_detach n = function
-| [] -> None
-| s :: r ->
-  (match child_pos n s with
-   | Some i ->
-     (match nth_error (n_ch n) i with
-      | Some c ->
-        (match r with
-         | [] -> Some ((remove_item n i), c)
-         | _ :: _ ->
-           (match m_detach c r with
-            | Some p -> let (c', d) = p in Some ((set_child n i c'), d)
-            | None -> None))
-      | None -> None)
-   | None -> None)
-
-type rc =
-| RcOk
-| RcNotFound
-| RcNoValue
-| RcTargetInvalid
-| RcBadIdx
-| RcTestFailed
-| RcInvalidValue
-| RcPtr
-| RcPatchInvalid
-| RcBadOp
-| RcInvArgs
-| RcNotImpl
-| RcCreation
-| RcUnmodelled
-
-(** val rc_code : rc -> z **)
-
-let rc_code = function
-| RcOk -> Z0
-| RcNotFound -> jP_ERR_PATH_NOTFOUND
-| RcNoValue -> jP_ERR_PATCH_NOVALUE
-| RcTargetInvalid -> jP_ERR_PATCH_TARGET_INVALID
-| RcBadIdx -> jP_ERR_PATCH_INVALID_ARRAY_INDEX
-| RcTestFailed -> jP_ERR_PATCH_TEST_FAILED
-| RcInvalidValue -> jP_ERR_PATCH_INVALID_VALUE
-| RcPtr -> jP_ERR_JSON_POINTER
-| RcPatchInvalid -> jP_ERR_PATCH_INVALID
-| RcBadOp -> jP_ERR_PATCH_INVALID_OP
-| RcInvArgs -> jP_ERR_INVALID_ARGS
-| RcNotImpl -> jP_ERR_NOT_IMPLEMENTED
-| RcCreation -> jP_ERR_CREATION
-| RcUnmodelled -> Zneg XH
-
-type opk =
-| ONone
-| OAdd
-| ORemove
-| OReplace
-| OCopy
-| OMove
-| OTest
-| OIncrement
-| OAddCreate
-| OSwap
-
-(** val op_code : opk -> z **)
-
-let op_code = function
-| ONone -> Z0
-| OAdd -> jP_JBP_ADD
-| ORemove -> jP_JBP_REMOVE
-| OReplace -> jP_JBP_REPLACE
-| OCopy -> jP_JBP_COPY
-| OMove -> jP_JBP_MOVE
-| OTest -> jP_JBP_TEST
-| OIncrement -> jP_JBP_INCREMENT
-| OAddCreate -> jP_JBP_ADD_CREATE
-| OSwap -> jP_JBP_SWAP
-
-(** val op_eqb : opk -> opk -> bool **)
-
-let op_eqb a b =
-  Z.eqb (op_code a) (op_code b)
-
-type fops = { f_add : (z -> z -> z); f_of_i : (z -> z); f_to_i : (z -> z);
-              f_eq : (z -> z -> bool) }
-
-(** val increment : fops -> node -> node -> rc * node **)
-
-let increment fo target value =
-  match n_ty value with
-  | TI64 ->
-    let Node (kl, k, ty, vi, s, c) = target in
-    (match ty with
-     | TI64 ->
-       (RcOk, (Node (kl, k, TI64,
-         (sw (Zpos (XO (XO (XO (XO (XO (XO XH)))))))
-           (Z.add vi
-             (match n_ty value with
-              | TI64 -> n_vi value
-              | _ -> fo.f_to_i (n_vi value)))), s, c)))
-     | TF64 ->
-       (RcOk, (Node (kl, k, TF64,
-         (fo.f_add vi
-           (match n_ty value with
-            | TF64 -> n_vi value
-            | _ -> fo.f_of_i (n_vi value))), s, c)))
-     | _ -> (RcTargetInvalid, target))
-  | TF64 ->
-    let Node (kl, k, ty, vi, s, c) = target in
-    (match ty with
-     | TI64 ->
-       (RcOk, (Node (kl, k, TI64,
-         (sw (Zpos (XO (XO (XO (XO (XO (XO XH)))))))
-           (Z.add vi
-             (match n_ty value with
-              | TI64 -> n_vi value
-              | _ -> fo.f_to_i (n_vi value)))), s, c)))
-     | TF64 ->
-       (RcOk, (Node (kl, k, TF64,
-         (fo.f_add vi
-           (match n_ty value with
-            | TF64 -> n_vi value
-            | _ -> fo.f_of_i (n_vi value))), s, c)))
-     | _ -> (RcTargetInvalid, target))
-  | _ -> (RcInvalidValue, target)
-
-(** val member_match : node -> node -> bool **)
-
-let member_match a c =
-  (&&) (Z.eqb (n_kl a) (n_kl c))
-    (strncmp_eq (n_key a) (n_key c) (Z.to_nat (n_kl a)))
-
-(** val nodes_eq : fops -> node -> node -> bool **)
-
-let rec nodes_eq fo a b =
-  let Node (_, _, ty, vi, vs, ch) = a in
-  (&&) (ty_eqb ty (n_ty b))
-    (match ty with
-     | TBool -> eqb (negb (Z.eqb vi Z0)) (negb (Z.eqb (n_vi b) Z0))
-     | TI64 -> Z.eqb vi (n_vi b)
-     | TF64 -> fo.f_eq vi (n_vi b)
-     | TStr ->
-       (&&) (Z.eqb (Z.of_nat (length vs)) (Z.of_nat (length (n_vs b))))
-         (strncmp_eq vs (n_vs b) (length vs))
-     | TObj ->
-       (&&) (Z.eqb (Z.of_nat (length ch)) (Z.of_nat (length (n_ch b))))
-         (let rec go = function
-          | [] -> true
-          | x :: l' ->
-            (&&)
-              (match find_pos (member_match x) (n_ch b) with
-               | Some i ->
-                 (match nth_error (n_ch b) i with
-                  | Some y -> nodes_eq fo x y
-                  | None -> false)
-               | None -> false) (go l')
-          in go ch)
-     | TArr ->
-       let rec go l m =
-         match l with
-         | [] -> (match m with
-                  | [] -> true
-                  | _ :: _ -> false)
-         | x :: l' ->
-           (match m with
-            | [] -> false
-            | y :: m' -> (&&) (nodes_eq fo x y) (go l' m'))
-       in go ch (n_ch b)
-     | _ -> true)
-
-(** val renumber : z -> node list -> node list **)
-
-let rec renumber i = function
-| [] -> []
-| x :: r -> (set_kl x i) :: (renumber (Z.add i (Zpos XH)) r)
-
-(** val clone : node -> node **)
-
-let rec clone = function
-| Node (kl, k, ty, vi, vs, ch) ->
-  let ch' = map clone ch in
-  Node (kl, (firstn (Z.to_nat kl) k), ty, vi, vs,
-  (match ty with
-   | TObj -> ch'
-   | TArr -> renumber Z0 (map (fun c -> set_key c []) ch')
-   | _ -> []))
-
-(** val put_here : fops -> opk -> node -> seg -> node -> rc * node **)
-
-let put_here fo k p s v =
-  match n_ty p with
-  | TObj ->
-    (match child_pos p s with
-     | Some i ->
-       (match nth_error (n_ch p) i with
-        | Some c ->
-          if op_eqb k OIncrement
-          then let (r, c') = increment fo c v in (r, (set_child p i c'))
-          else (RcOk, (set_child p i (copy_data c v)))
-        | None -> (RcTargetInvalid, p))
-     | None ->
-       if op_eqb k OIncrement
-       then (RcTargetInvalid, p)
-       else (RcOk, (add_item p (set_kl (set_key v s) (Z.of_nat (length s))))))
-  | TArr ->
-    if is_dash s
-    then (RcOk, (add_item p v))
-    else let idx = sw (Zpos (XO (XO (XO (XO (XO XH)))))) (atoi s) in
-         let len = Z.of_nat (length (n_ch p)) in
-         if (||) (Z.gtb idx len) (Z.ltb idx Z0)
-         then (RcBadIdx, p)
-         else let v1 = set_kl v idx in
-              if Z.ltb idx len
-              then let i = Z.to_nat idx in
-                   (RcOk,
-                   (set_ch p
-                     (app (firstn i (n_ch p))
-                       (v1 :: (map inc_kl (skipn i (n_ch p)))))))
-              else (RcOk, (add_item p v1))
-  | _ -> (RcTargetInvalid, p)
-
-(** val m_put :
-    fops -> opk -> node -> seg list -> node -> (rc * node) option **)
-
-let rec m_put fo k n segs v =
-  match segs with
-  | [] -> Some (RcTargetInvalid, n)
-  | s :: r ->
-    (match r with
-     | [] -> Some (put_here fo k n s v)
-     | _ :: _ ->
-       (match child_pos n s with
-        | Some i ->
-          (match nth_error (n_ch n) i with
-           | Some c ->
-             (match m_put fo k c r v with
-              | Some p -> let (rc0, c') = p in Some (rc0, (set_child n i c'))
+let rec enc_item = function
+| JNull -> Some (jbinn_BINN_NULL :: [])
+| JBool b -> Some ((if b then jbinn_BINN_TRUE else jbinn_BINN_FALSE) :: [])
+| JI64 n0 -> let (t, k) = compress_int n0 in Some (t :: (be_bytes k n0))
+| JF64 bits ->
+  Some
+    (jbinn_BINN_DOUBLE :: (be_bytes (S (S (S (S (S (S (S (S O)))))))) bits))
+| JStr s ->
+  let s' = if Z.eqb jbinn_STRING_KEEPS_NUL (Zpos XH) then s else cstr s in
+  Some (jbinn_BINN_STRING :: (app (wr_field (zlen s')) (app s' (Z0 :: []))))
+| JArr items ->
+  (match let rec go l body cnt =
+           match l with
+           | [] -> Some (body, cnt)
+           | x :: r ->
+             (match enc_item x with
+              | Some bx -> go r (app body bx) (Z.add cnt (Zpos XH))
               | None -> None)
-           | None -> None)
-        | None -> None))
+         in go items [] Z0 with
+   | Some p -> let (body, cnt) = p in save_header jbinn_BINN_LIST body cnt
+   | None -> None)
+| JObj ms ->
+  (match let rec go l body cnt =
+           match l with
+           | [] -> Some (body, cnt)
+           | p :: r ->
+             let (k, x) = p in
+             (match enc_item x with
+              | Some bx ->
+                if Z.gtb (zlen k) jbinn_MAX_BIN_KEY_LEN
+                then None
+                else if search_key (Z.to_nat cnt) body (zlen body) k
+                     then None
+                     else go r (app body ((zlen k) :: (app k bx)))
+                            (Z.add cnt (Zpos XH))
+              | None -> None)
+         in go ms [] Z0 with
+   | Some p -> let (body, cnt) = p in save_header jbinn_BINN_OBJECT body cnt
+   | None -> None)
 
-(** val m_create : fops -> node -> seg list -> node -> rc * node **)
+(** val binn_encode : jval -> z list option **)
 
-let rec m_create fo n segs v =
-  match segs with
-  | [] -> (RcTargetInvalid, n)
-  | s :: r ->
-    (match r with
-     | [] -> put_here fo OAddCreate n s v
-     | _ :: _ ->
-       (match child_pos n s with
-        | Some i ->
-          (match nth_error (n_ch n) i with
-           | Some c ->
-             (match n_ty c with
-              | TObj ->
-                let (rc0, c') = m_create fo c r v in (rc0, (set_child n i c'))
-              | _ -> (RcTargetInvalid, n))
-           | None -> (RcTargetInvalid, n))
-        | None ->
-          let pn = Node ((Z.of_nat (length s)), s, TObj, Z0, [], []) in
-          let n1 = add_item n pn in
-          let i = length (n_ch n) in
-          (match nth_error (n_ch n1) i with
-           | Some pn1 ->
-             let (rc0, c') = m_create fo pn1 r v in (rc0, (set_child n1 i c'))
-           | None -> (RcTargetInvalid, n1))))
+let binn_encode v = match v with
+| JArr _ -> enc_item v
+| JObj _ -> enc_item v
+| _ -> None
 
-(** val is_prefix : seg list -> seg list -> bool **)
+(** val binn_clone : z list -> z list option **)
 
-let rec is_prefix a b =
+let binn_clone bs =
+  match read_hdr bs with
+  | Some p ->
+    let (p0, hs) = p in
+    let (p1, count) = p0 in
+    let (ty, size) = p1 in
+    let body = firstn (Z.to_nat (Z.sub size hs)) (zskip hs bs) in
+    save_header ty body count
+  | None -> None
+
+(** val binn_clone_into_pool : z list -> z list option **)
+
+let binn_clone_into_pool bs =
+  match read_hdr bs with
+  | Some p ->
+    let (p0, _) = p in
+    let (p1, _) = p0 in let (_, size) = p1 in Some (zfirst size bs)
+  | None -> None
+
+(** val char_ok : z -> bool **)
+
+let char_ok c =
+  (&&) (Z.leb (Zpos XH) c)
+    (Z.leb c (Zpos (XI (XI (XI (XI (XI (XI (XI XH)))))))))
+
+(** val key_ieq : z list -> z list -> bool **)
+
+let rec key_ieq a b =
   match a with
-  | [] -> true
+  | [] -> (match b with
+           | [] -> true
+           | _ :: _ -> false)
   | x :: a' ->
     (match b with
      | [] -> false
-     | y :: b' -> (&&) (bytes_eqb x y) (is_prefix a' b'))
+     | y :: b' -> (&&) (Z.eqb (tolower x) (tolower y)) (key_ieq a' b'))
 
-(** val m_set_data : node -> seg list -> node -> node option **)
+(** val keys_unique : z list list -> bool **)
 
-let rec m_set_data n segs d =
-  match segs with
-  | [] -> Some (copy_data n d)
-  | s :: r ->
-    (match child_pos n s with
-     | Some i ->
-       (match nth_error (n_ch n) i with
-        | Some c ->
-          (match m_set_data c r d with
-           | Some c' -> Some (set_child n i c')
-           | None -> None)
-        | None -> None)
-     | None -> None)
-
-type pop = { p_op : opk; p_path : seg list; p_from : seg list option;
-             p_val : node option }
-
-(** val is_root : seg list -> bool **)
-
-let is_root = function
+let rec keys_unique = function
 | [] -> true
-| s :: l ->
-  (match s with
-   | [] -> (match l with
-            | [] -> true
-            | _ :: _ -> false)
-   | _ :: _ -> false)
+| k :: r -> (&&) (negb (existsb (key_ieq k) r)) (keys_unique r)
 
-(** val put_or_create :
-    fops -> opk -> node -> seg list -> node -> rc * node **)
+(** val wf : jval -> bool **)
 
-let put_or_create fo k t path v =
-  match m_put fo k t path v with
-  | Some r -> r
-  | None ->
-    if op_eqb k OAddCreate then m_create fo t path v else (RcTargetInvalid, t)
-
-(** val swap_target : node -> seg list -> node option option **)
-
-let swap_target t path =
-  match m_find t (removelast path) with
-  | Some p ->
-    (match n_ty p with
-     | TObj ->
-       (match child_pos p (last path []) with
-        | Some i -> Some (nth_error (n_ch p) i)
-        | None -> Some None)
-     | TArr ->
-       let s = last path [] in
-       if is_dash s
-       then Some None
-       else let idx = sw (Zpos (XO (XO (XO (XO (XO XH)))))) (atoi s) in
-            if (&&) (Z.leb Z0 idx) (Z.ltb idx (Z.of_nat (length (n_ch p))))
-            then Some (nth_error (n_ch p) (Z.to_nat idx))
-            else Some None
-     | _ -> Some None)
-  | None -> None
-
-(** val apply_op : fops -> node -> pop -> rc * node **)
-
-let apply_op fo t o =
-  let k = o.p_op in
-  let path = o.p_path in
-  if (&&) (op_eqb k OSwap)
-       (match o.p_from with
-        | Some l -> (match l with
-                     | [] -> true
-                     | _ :: _ -> false)
-        | None -> false)
-  then (RcPatchInvalid, t)
-  else if op_eqb k OTest
-       then (match o.p_val with
-             | Some v ->
-               (match if is_root path then Some t else m_find t path with
-                | Some x ->
-                  if nodes_eq fo x v then (RcOk, t) else (RcTestFailed, t)
-                | None -> (RcTestFailed, t))
-             | None -> (RcNoValue, t))
-       else if is_root path
-            then if op_eqb k ORemove
-                 then (RcOk, zero_node)
-                 else if (||) ((||) (op_eqb k OReplace) (op_eqb k OAdd))
-                           (op_eqb k OAddCreate)
-                      then (match o.p_val with
-                            | Some v -> (RcOk, v)
-                            | None -> (RcNoValue, t))
-                      else (RcOk, t)
-            else if (||) (op_eqb k ORemove) (op_eqb k OReplace)
-                 then (match m_detach t path with
-                       | Some p ->
-                         let (t', _) = p in
-                         if op_eqb k ORemove
-                         then (RcOk, t')
-                         else if (&&)
-                                   ((||)
-                                     ((||) (op_eqb k OMove) (op_eqb k OCopy))
-                                     (op_eqb k OSwap))
-                                   (match o.p_from with
-                                    | Some _ -> false
-                                    | None -> true)
-                              then (RcPatchInvalid, t')
-                              else if op_eqb k OMove
-                                   then (match match o.p_from with
-                                               | Some f -> m_detach t' f
-                                               | None -> None with
-                                         | Some p0 ->
-                                           let (t2, v) = p0 in
-                                           put_or_create fo k t2 path v
-                                         | None -> (RcNotFound, t'))
-                                   else if op_eqb k OCopy
-                                        then (match match o.p_from with
-                                                    | Some f -> m_find t' f
-                                                    | None -> None with
-                                              | Some v ->
-                                                put_or_create fo k t' path
-                                                  (clone v)
-                                              | None -> (RcNotFound, t'))
-                                        else if op_eqb k OSwap
-                                             then (match o.p_from with
-                                                   | Some f ->
-                                                     (match m_find t' f with
-                                                      | Some v ->
-                                                        (match swap_target t'
-                                                                 path with
-                                                         | Some o0 ->
-                                                           (match o0 with
-                                                            | Some c ->
-                                                              if (&&)
-                                                                   (is_prefix
-                                                                    f path)
-                                                                   (is_prefix
-                                                                    path f)
-                                                              then (RcOk, t')
-                                                              else if 
-                                                                    (||)
-                                                                    (is_prefix
-                                                                    f path)
-                                                                    (is_prefix
-                                                                    path f)
-                                                                   then 
-                                                                    (RcUnmodelled,
-                                                                    t')
-                                                                   else 
-                                                                    (match 
-                                                                    m_set_data
-                                                                    t' f c with
-                                                                    | Some t2 ->
-                                                                    (match 
-                                                                    m_set_data
-                                                                    t2 path v with
-                                                                    | Some t3 ->
-                                                                    (RcOk, t3)
-                                                                    | None ->
-                                                                    (RcUnmodelled,
-                                                                    t'))
-                                                                    | None ->
-                                                                    (RcUnmodelled,
-                                                                    t'))
-                                                            | None ->
-                                                              if is_prefix f
-                                                                   path
-                                                              then (RcUnmodelled,
-                                                                    t')
-                                                              else let (
-                                                                    r0, t2) =
-                                                                    put_or_create
-                                                                    fo k t'
-                                                                    path v
-                                                                   in
-                                                                   (match r0 with
-                                                                    | RcOk ->
-                                                                    (match 
-                                                                    m_detach
-                                                                    t2 f with
-                                                                    | Some p0 ->
-                                                                    let (
-                                                                    t3, _) =
-                                                                    p0
-                                                                    in
-                                                                    (RcOk, t3)
-                                                                    | None ->
-                                                                    (RcUnmodelled,
-                                                                    t'))
-                                                                    | x ->
-                                                                    (x, t2)))
-                                                         | None ->
-                                                           (RcTargetInvalid,
-                                                             t'))
-                                                      | None ->
-                                                        (RcNotFound, t'))
-                                                   | None -> (RcNotFound, t'))
-                                             else (match o.p_val with
-                                                   | Some v ->
-                                                     put_or_create fo k t'
-                                                       path v
-                                                   | None -> (RcNoValue, t'))
-                       | None -> (RcNotFound, t))
-                 else if op_eqb k ORemove
-                      then (RcOk, t)
-                      else if (&&)
-                                ((||)
-                                  ((||) (op_eqb k OMove) (op_eqb k OCopy))
-                                  (op_eqb k OSwap))
-                                (match o.p_from with
-                                 | Some _ -> false
-                                 | None -> true)
-                           then (RcPatchInvalid, t)
-                           else if op_eqb k OMove
-                                then (match match o.p_from with
-                                            | Some f -> m_detach t f
-                                            | None -> None with
-                                      | Some p ->
-                                        let (t2, v) = p in
-                                        put_or_create fo k t2 path v
-                                      | None -> (RcNotFound, t))
-                                else if op_eqb k OCopy
-                                     then (match match o.p_from with
-                                                 | Some f -> m_find t f
-                                                 | None -> None with
-                                           | Some v ->
-                                             put_or_create fo k t path
-                                               (clone v)
-                                           | None -> (RcNotFound, t))
-                                     else if op_eqb k OSwap
-                                          then (match o.p_from with
-                                                | Some f ->
-                                                  (match m_find t f with
-                                                   | Some v ->
-                                                     (match swap_target t path with
-                                                      | Some o0 ->
-                                                        (match o0 with
-                                                         | Some c ->
-                                                           if (&&)
-                                                                (is_prefix f
-                                                                  path)
-                                                                (is_prefix
-                                                                  path f)
-                                                           then (RcOk, t)
-                                                           else if (||)
-                                                                    (is_prefix
-                                                                    f path)
-                                                                    (is_prefix
-                                                                    path f)
-                                                                then 
-                                                                  (RcUnmodelled,
-                                                                    t)
-                                                                else 
-                                                                  (match 
-                                                                   m_set_data
-                                                                    t f c with
-                                                                   | Some t2 ->
-                                                                    (match 
-                                                                    m_set_data
-                                                                    t2 path v with
-                                                                    | Some t3 ->
-                                                                    (RcOk, t3)
-                                                                    | None ->
-                                                                    (RcUnmodelled,
-                                                                    t))
-                                                                   | None ->
-                                                                    (RcUnmodelled,
-                                                                    t))
-                                                         | None ->
-                                                           if is_prefix f path
-                                                           then (RcUnmodelled,
-                                                                  t)
-                                                           else let (
-                                                                  r0, t2) =
-                                                                  put_or_create
-                                                                    fo k t
-                                                                    path v
-                                                                in
-                                                                (match r0 with
-                                                                 | RcOk ->
-                                                                   (match 
-                                                                    m_detach
-                                                                    t2 f with
-                                                                    | Some p ->
-                                                                    let (
-                                                                    t3, _) = p
-                                                                    in
-                                                                    (RcOk, t3)
-                                                                    | None ->
-                                                                    (RcUnmodelled,
-                                                                    t))
-                                                                 | x ->
-                                                                   (x, t2)))
-                                                      | None ->
-                                                        (RcTargetInvalid, t))
-                                                   | None -> (RcNotFound, t))
-                                                | None -> (RcNotFound, t))
-                                          else (match o.p_val with
-                                                | Some v ->
-                                                  put_or_create fo k t path v
-                                                | None -> (RcNoValue, t))
-
-(** val ptr_segs : z list -> z list -> seg list option **)
-
-let rec ptr_segs s cur =
-  match s with
-  | [] -> Some ((rev cur) :: [])
-  | c :: r ->
-    (match c with
-     | Zpos p ->
-       (match p with
-        | XI p0 ->
-          (match p0 with
-           | XI p1 ->
-             (match p1 with
-              | XI p2 ->
-                (match p2 with
-                 | XI p3 ->
-                   (match p3 with
-                    | XO p4 ->
-                      (match p4 with
-                       | XH ->
-                         (match ptr_segs r [] with
-                          | Some l -> Some ((rev cur) :: l)
-                          | None -> None)
-                       | _ -> ptr_segs r (c :: cur))
-                    | _ -> ptr_segs r (c :: cur))
-                 | _ -> ptr_segs r (c :: cur))
-              | _ -> ptr_segs r (c :: cur))
-           | _ -> ptr_segs r (c :: cur))
-        | XO p0 ->
-          (match p0 with
-           | XI p1 ->
-             (match p1 with
-              | XI p2 ->
-                (match p2 with
-                 | XI p3 ->
-                   (match p3 with
-                    | XI p4 ->
-                      (match p4 with
-                       | XI p5 ->
-                         (match p5 with
-                          | XH ->
-                            (match r with
-                             | [] -> None
-                             | z0 :: r0 ->
-                               (match z0 with
-                                | Zpos p6 ->
-                                  (match p6 with
-                                   | XI p7 ->
-                                     (match p7 with
-                                      | XO p8 ->
-                                        (match p8 with
-                                         | XO p9 ->
-                                           (match p9 with
-                                            | XO p10 ->
-                                              (match p10 with
-                                               | XI p11 ->
-                                                 (match p11 with
-                                                  | XH ->
-                                                    ptr_segs r0 ((Zpos (XI
-                                                      (XI (XI (XI (XO
-                                                      XH)))))) :: cur)
-                                                  | _ -> None)
-                                               | _ -> None)
-                                            | _ -> None)
-                                         | _ -> None)
-                                      | _ -> None)
-                                   | XO p7 ->
-                                     (match p7 with
-                                      | XO p8 ->
-                                        (match p8 with
-                                         | XO p9 ->
-                                           (match p9 with
-                                            | XO p10 ->
-                                              (match p10 with
-                                               | XI p11 ->
-                                                 (match p11 with
-                                                  | XH ->
-                                                    ptr_segs r0 ((Zpos (XO
-                                                      (XI (XI (XI (XI (XI
-                                                      XH))))))) :: cur)
-                                                  | _ -> None)
-                                               | _ -> None)
-                                            | _ -> None)
-                                         | _ -> None)
-                                      | _ -> None)
-                                   | XH -> None)
-                                | _ -> None))
-                          | _ -> ptr_segs r (c :: cur))
-                       | _ -> ptr_segs r (c :: cur))
-                    | _ -> ptr_segs r (c :: cur))
-                 | _ -> ptr_segs r (c :: cur))
-              | _ -> ptr_segs r (c :: cur))
-           | _ -> ptr_segs r (c :: cur))
-        | XH -> ptr_segs r (c :: cur))
-     | _ -> ptr_segs r (c :: cur))
-
-type ptr_res =
-| PtrOk of seg list
-| PtrErr
-| PtrUnmodelled
-
-(** val ptr_parse : z list -> ptr_res **)
-
-let ptr_parse s = match s with
-| [] -> PtrOk []
-| z0 :: r ->
-  (match z0 with
-   | Zpos p ->
-     (match p with
-      | XI p0 ->
-        (match p0 with
-         | XI p1 ->
-           (match p1 with
-            | XI p2 ->
-              (match p2 with
-               | XI p3 ->
-                 (match p3 with
-                  | XO p4 ->
-                    (match p4 with
-                     | XH ->
-                       if (&&) (Z.ltb (Zpos XH) (Z.of_nat (length s)))
-                            (match rev s with
-                             | [] -> false
-                             | z1 :: _ ->
-                               (match z1 with
-                                | Zpos p5 ->
-                                  (match p5 with
-                                   | XI p6 ->
-                                     (match p6 with
-                                      | XI p7 ->
-                                        (match p7 with
-                                         | XI p8 ->
-                                           (match p8 with
-                                            | XI p9 ->
-                                              (match p9 with
-                                               | XO p10 ->
-                                                 (match p10 with
-                                                  | XH -> true
-                                                  | _ -> false)
-                                               | _ -> false)
-                                            | _ -> false)
-                                         | _ -> false)
-                                      | _ -> false)
-                                   | _ -> false)
-                                | _ -> false))
-                       then PtrErr
-                       else (match ptr_segs r [] with
-                             | Some l -> PtrOk l
-                             | None -> PtrUnmodelled)
-                     | _ -> PtrErr)
-                  | _ -> PtrErr)
-               | _ -> PtrErr)
-            | _ -> PtrErr)
-         | _ -> PtrErr)
-      | _ -> PtrErr)
-   | _ -> PtrErr)
-
-type rawop = { r_op : opk; r_path : z list option; r_from : z list option;
-               r_val : node option }
-
-(** val parse_op : rawop -> (rc, pop) sum **)
-
-let parse_op r =
-  match ptr_parse (match r.r_path with
-                   | Some p -> p
-                   | None -> []) with
-  | PtrOk path ->
-    (match r.r_from with
-     | Some f ->
-       (match ptr_parse f with
-        | PtrOk fs ->
-          Inr { p_op = r.r_op; p_path = path; p_from = (Some fs); p_val =
-            r.r_val }
-        | PtrErr -> Inl RcPtr
-        | PtrUnmodelled -> Inl RcUnmodelled)
-     | None ->
-       Inr { p_op = r.r_op; p_path = path; p_from = None; p_val = r.r_val })
-  | PtrErr -> Inl RcPtr
-  | PtrUnmodelled -> Inl RcUnmodelled
-
-(** val parse_ops : rawop list -> (rc, pop list) sum **)
-
-let rec parse_ops = function
-| [] -> Inr []
-| r :: l' ->
-  (match parse_op r with
-   | Inl e -> Inl e
-   | Inr o ->
-     (match parse_ops l' with
-      | Inl e -> Inl e
-      | Inr os -> Inr (o :: os)))
-
-(** val apply_ops : fops -> node -> pop list -> rc * node **)
-
-let rec apply_ops fo t = function
-| [] -> (RcOk, t)
-| o :: l' ->
-  let (r0, t') = apply_op fo t o in
-  (match r0 with
-   | RcOk -> apply_ops fo t' l'
-   | x -> (x, t'))
-
-(** val patch_node : fops -> node -> rawop list -> rc * node **)
-
-let patch_node fo t l = match l with
-| [] -> (RcOk, t)
-| _ :: _ ->
-  (match parse_ops l with
-   | Inl e -> (e, t)
-   | Inr os -> apply_ops fo t os)
-
-(** val lit_op : z list **)
-
-let lit_op =
-  (Zpos (XI (XI (XI (XI (XO (XI XH))))))) :: ((Zpos (XO (XO (XO (XO (XI (XI
-    XH))))))) :: [])
-
-(** val lit_value : z list **)
-
-let lit_value =
-  (Zpos (XO (XI (XI (XO (XI (XI XH))))))) :: ((Zpos (XI (XO (XO (XO (XO (XI
-    XH))))))) :: ((Zpos (XO (XO (XI (XI (XO (XI XH))))))) :: ((Zpos (XI (XO
-    (XI (XO (XI (XI XH))))))) :: ((Zpos (XI (XO (XI (XO (XO (XI
-    XH))))))) :: []))))
-
-(** val lit_path : z list **)
-
-let lit_path =
-  (Zpos (XO (XO (XO (XO (XI (XI XH))))))) :: ((Zpos (XI (XO (XO (XO (XO (XI
-    XH))))))) :: ((Zpos (XO (XO (XI (XO (XI (XI XH))))))) :: ((Zpos (XO (XO
-    (XO (XI (XO (XI XH))))))) :: [])))
-
-(** val lit_from : z list **)
-
-let lit_from =
-  (Zpos (XO (XI (XI (XO (XO (XI XH))))))) :: ((Zpos (XO (XI (XO (XO (XI (XI
-    XH))))))) :: ((Zpos (XI (XI (XI (XI (XO (XI XH))))))) :: ((Zpos (XI (XO
-    (XI (XI (XO (XI XH))))))) :: [])))
-
-(** val op_names : (z list * opk) list **)
-
-let op_names =
-  (((Zpos (XI (XO (XO (XO (XO (XI XH))))))) :: ((Zpos (XO (XO (XI (XO (XO (XI
-    XH))))))) :: ((Zpos (XO (XO (XI (XO (XO (XI XH))))))) :: []))),
-    OAdd) :: ((((Zpos (XO (XI (XO (XO (XI (XI XH))))))) :: ((Zpos (XI (XO (XI
-    (XO (XO (XI XH))))))) :: ((Zpos (XI (XO (XI (XI (XO (XI
-    XH))))))) :: ((Zpos (XI (XI (XI (XI (XO (XI XH))))))) :: ((Zpos (XO (XI
-    (XI (XO (XI (XI XH))))))) :: ((Zpos (XI (XO (XI (XO (XO (XI
-    XH))))))) :: [])))))), ORemove) :: ((((Zpos (XO (XI (XO (XO (XI (XI
-    XH))))))) :: ((Zpos (XI (XO (XI (XO (XO (XI XH))))))) :: ((Zpos (XO (XO
-    (XO (XO (XI (XI XH))))))) :: ((Zpos (XO (XO (XI (XI (XO (XI
-    XH))))))) :: ((Zpos (XI (XO (XO (XO (XO (XI XH))))))) :: ((Zpos (XI (XI
-    (XO (XO (XO (XI XH))))))) :: ((Zpos (XI (XO (XI (XO (XO (XI
-    XH))))))) :: []))))))), OReplace) :: ((((Zpos (XI (XI (XO (XO (XO (XI
-    XH))))))) :: ((Zpos (XI (XI (XI (XI (XO (XI XH))))))) :: ((Zpos (XO (XO
-    (XO (XO (XI (XI XH))))))) :: ((Zpos (XI (XO (XO (XI (XI (XI
-    XH))))))) :: [])))), OCopy) :: ((((Zpos (XI (XO (XI (XI (XO (XI
-    XH))))))) :: ((Zpos (XI (XI (XI (XI (XO (XI XH))))))) :: ((Zpos (XO (XI
-    (XI (XO (XI (XI XH))))))) :: ((Zpos (XI (XO (XI (XO (XO (XI
-    XH))))))) :: [])))), OMove) :: ((((Zpos (XO (XO (XI (XO (XI (XI
-    XH))))))) :: ((Zpos (XI (XO (XI (XO (XO (XI XH))))))) :: ((Zpos (XI (XI
-    (XO (XO (XI (XI XH))))))) :: ((Zpos (XO (XO (XI (XO (XI (XI
-    XH))))))) :: [])))), OTest) :: ((((Zpos (XI (XO (XO (XI (XO (XI
-    XH))))))) :: ((Zpos (XO (XI (XI (XI (XO (XI XH))))))) :: ((Zpos (XI (XI
-    (XO (XO (XO (XI XH))))))) :: ((Zpos (XO (XI (XO (XO (XI (XI
-    XH))))))) :: ((Zpos (XI (XO (XI (XO (XO (XI XH))))))) :: ((Zpos (XI (XO
-    (XI (XI (XO (XI XH))))))) :: ((Zpos (XI (XO (XI (XO (XO (XI
-    XH))))))) :: ((Zpos (XO (XI (XI (XI (XO (XI XH))))))) :: ((Zpos (XO (XO
-    (XI (XO (XI (XI XH))))))) :: []))))))))), OIncrement) :: ((((Zpos (XI (XO
-    (XO (XO (XO (XI XH))))))) :: ((Zpos (XO (XO (XI (XO (XO (XI
-    XH))))))) :: ((Zpos (XO (XO (XI (XO (XO (XI XH))))))) :: ((Zpos (XI (XI
-    (XI (XI (XI (XO XH))))))) :: ((Zpos (XI (XI (XO (XO (XO (XI
-    XH))))))) :: ((Zpos (XO (XI (XO (XO (XI (XI XH))))))) :: ((Zpos (XI (XO
-    (XI (XO (XO (XI XH))))))) :: ((Zpos (XI (XO (XO (XO (XO (XI
-    XH))))))) :: ((Zpos (XO (XO (XI (XO (XI (XI XH))))))) :: ((Zpos (XI (XO
-    (XI (XO (XO (XI XH))))))) :: [])))))))))), OAddCreate) :: ((((Zpos (XI
-    (XI (XO (XO (XI (XI XH))))))) :: ((Zpos (XI (XI (XI (XO (XI (XI
-    XH))))))) :: ((Zpos (XI (XO (XO (XO (XO (XI XH))))))) :: ((Zpos (XO (XO
-    (XO (XO (XI (XI XH))))))) :: [])))), OSwap) :: []))))))))
-
-(** val op_by_prefix : (z list * opk) list -> z list -> opk option **)
-
-let rec op_by_prefix names v =
-  match names with
-  | [] -> None
-  | p :: r ->
-    let (nm, o) = p in
-    if strncmp_eq nm v (length v) then Some o else op_by_prefix r v
-
-(** val lit_match : z list -> node -> bool **)
-
-let lit_match lit m =
-  strncmp_eq lit (n_key m) (Z.to_nat (n_kl m))
-
-(** val decode_members : node list -> rawop -> (rc, rawop) sum **)
-
-let rec decode_members ms acc =
-  match ms with
-  | [] -> Inr acc
-  | m :: r ->
-    if lit_match lit_op m
-    then (match n_ty m with
-          | TStr ->
-            (match op_by_prefix op_names (n_vs m) with
-             | Some o ->
-               decode_members r { r_op = o; r_path = acc.r_path; r_from =
-                 acc.r_from; r_val = acc.r_val }
-             | None -> Inl RcBadOp)
-          | _ -> Inl RcPatchInvalid)
-    else if lit_match lit_value m
-         then decode_members r { r_op = acc.r_op; r_path = acc.r_path;
-                r_from = acc.r_from; r_val = (Some m) }
-         else if lit_match lit_path m
-              then (match n_ty m with
-                    | TStr ->
-                      decode_members r { r_op = acc.r_op; r_path = (Some
-                        (n_vs m)); r_from = acc.r_from; r_val = acc.r_val }
-                    | _ -> Inl RcPatchInvalid)
-              else if lit_match lit_from m
-                   then (match n_ty m with
-                         | TStr ->
-                           decode_members r { r_op = acc.r_op; r_path =
-                             acc.r_path; r_from = (Some (n_vs m)); r_val =
-                             acc.r_val }
-                         | _ -> Inl RcPatchInvalid)
-                   else decode_members r acc
-
-(** val empty_rawop : rawop **)
-
-let empty_rawop =
-  { r_op = ONone; r_path = None; r_from = None; r_val = None }
-
-(** val decode_ops : node list -> (rc, rawop list) sum **)
-
-let rec decode_ops = function
-| [] -> Inr []
-| n :: r ->
-  (match decode_members (n_ch n) empty_rawop with
-   | Inl e -> Inl e
-   | Inr o ->
-     (match decode_ops r with
-      | Inl e -> Inl e
-      | Inr os -> Inr (o :: os)))
-
-(** val create_patch : node -> (rc, rawop list) sum **)
-
-let create_patch p =
-  if forallb (fun n -> ty_eqb (n_ty n) TObj) (n_ch p)
-  then decode_ops (n_ch p)
-  else Inl RcPatchInvalid
-
-(** val key_is : z list -> node -> bool **)
-
-let key_is lit m =
-  bytes_eqb lit (firstn (Z.to_nat (n_kl m)) (n_key m))
-
-(** val op_exact : (z list * opk) list -> z list -> opk option **)
-
-let rec op_exact names v =
-  match names with
-  | [] -> None
-  | p :: r ->
-    let (nm, o) = p in if bytes_eqb nm v then Some o else op_exact r v
-
-(** val decode_members_exact : node list -> rawop -> (rc, rawop) sum **)
-
-let rec decode_members_exact ms acc =
-  match ms with
-  | [] -> Inr acc
-  | m :: r ->
-    if key_is lit_op m
-    then (match n_ty m with
-          | TStr ->
-            (match op_exact op_names (n_vs m) with
-             | Some o ->
-               decode_members_exact r { r_op = o; r_path = acc.r_path;
-                 r_from = acc.r_from; r_val = acc.r_val }
-             | None -> Inl RcBadOp)
-          | _ -> Inl RcPatchInvalid)
-    else if key_is lit_value m
-         then decode_members_exact r { r_op = acc.r_op; r_path = acc.r_path;
-                r_from = acc.r_from; r_val = (Some m) }
-         else if key_is lit_path m
-              then (match n_ty m with
-                    | TStr ->
-                      decode_members_exact r { r_op = acc.r_op; r_path =
-                        (Some (n_vs m)); r_from = acc.r_from; r_val =
-                        acc.r_val }
-                    | _ -> Inl RcPatchInvalid)
-              else if key_is lit_from m
-                   then (match n_ty m with
-                         | TStr ->
-                           decode_members_exact r { r_op = acc.r_op; r_path =
-                             acc.r_path; r_from = (Some (n_vs m)); r_val =
-                             acc.r_val }
-                         | _ -> Inl RcPatchInvalid)
-                   else decode_members_exact r acc
-
-(** val decode_ops_exact : node list -> (rc, rawop list) sum **)
-
-let rec decode_ops_exact = function
-| [] -> Inr []
-| n :: r ->
-  (match match n_ty n with
-         | TObj -> decode_members_exact (n_ch n) empty_rawop
-         | TArr -> Inl RcPatchInvalid
-         | _ -> Inl RcPatchInvalid with
-   | Inl e -> Inl e
-   | Inr o ->
-     (match decode_ops_exact r with
-      | Inl e -> Inl e
-      | Inr os -> Inr (o :: os)))
-
-(** val patch_binary :
-    ('a1 -> node) -> (node -> 'a1 option) -> 'a1 -> fops -> 'a1 -> rawop list
-    -> rc * 'a1 **)
-
-let patch_binary dec enc empty fo b l = match l with
-| [] -> (RcOk, b)
-| _ :: _ ->
-  let (e, t) = patch_node fo (dec b) l in
-  (match e with
-   | RcOk ->
-     (match n_ty t with
-      | TNone -> (RcOk, empty)
-      | _ ->
-        (match enc t with
-         | Some b' -> (RcOk, b')
-         | None -> (RcCreation, b)))
-   | _ -> (e, b))
-
-(** val val0 : node -> jval **)
-
-let rec val0 = function
-| Node (_, _, ty, vi, vs, ch) ->
-  (match ty with
-   | TBool -> JBool (negb (Z.eqb vi Z0))
-   | TI64 -> JI64 vi
-   | TF64 -> JF64 vi
-   | TStr -> JStr vs
-   | TObj -> JObj (map (fun c -> ((n_key c), (val0 c))) ch)
-   | TArr -> JArr (map val0 ch)
-   | _ -> JNull)
-
-(** val doc_val : node -> jval option **)
-
-let doc_val n =
-  match n_ty n with
-  | TNone -> None
-  | _ -> Some (val0 n)
-
-(** val of_val : z -> z list -> jval -> node **)
-
-let rec of_val kl key = function
-| JNull -> Node (kl, key, TNull, Z0, [], [])
-| JBool b -> Node (kl, key, TBool, (if b then Zpos XH else Z0), [], [])
-| JI64 n -> Node (kl, key, TI64, n, [], [])
-| JF64 n -> Node (kl, key, TF64, n, [], [])
-| JStr s -> Node (kl, key, TStr, Z0, s, [])
-| JArr l ->
-  Node (kl, key, TArr, Z0, [],
-    (let rec go i = function
-     | [] -> []
-     | x :: r -> (of_val i [] x) :: (go (Z.add i (Zpos XH)) r)
-     in go Z0 l))
+let rec wf = function
+| JI64 n0 ->
+  (&&)
+    (Z.leb (Z.opp (Z.pow (Zpos (XO XH)) (Zpos (XI (XI (XI (XI (XI XH))))))))
+      n0) (Z.ltb n0 (Z.pow (Zpos (XO XH)) (Zpos (XI (XI (XI (XI (XI XH))))))))
+| JF64 b ->
+  (&&) (Z.leb Z0 b)
+    (Z.ltb b (Z.pow (Zpos (XO XH)) (Zpos (XO (XO (XO (XO (XO (XO XH)))))))))
+| JStr s -> forallb char_ok s
+| JArr items -> forallb wf items
 | JObj ms ->
-  Node (kl, key, TObj, Z0, [],
-    (let rec go = function
-     | [] -> []
-     | p :: r ->
-       let (k, x) = p in (of_val (Z.of_nat (length k)) k x) :: (go r)
-     in go ms))
-
-type heap = { h_next : nat; h_live : nat list }
-
-(** val h_live : heap -> nat list **)
-
-let h_live h =
-  h.h_live
-
-(** val h_empty : heap **)
-
-let h_empty =
-  { h_next = O; h_live = [] }
-
-(** val h_alloc : heap -> nat * heap **)
-
-let h_alloc h =
-  (h.h_next, { h_next = (S h.h_next); h_live = (h.h_next :: h.h_live) })
-
-(** val remove1 : nat -> nat list -> nat list option **)
-
-let rec remove1 x = function
-| [] -> None
-| y :: r ->
-  if Nat.eqb x y
-  then Some r
-  else (match remove1 x r with
-        | Some r' -> Some (y :: r')
-        | None -> None)
-
-type herr =
-| DoubleFree
-| UseAfterFree
-
-(** val h_free : heap -> nat -> (herr, heap) sum **)
-
-let h_free h id =
-  match remove1 id h.h_live with
-  | Some l -> Inr { h_next = h.h_next; h_live = l }
-  | None -> Inl DoubleFree
-
-(** val h_free_opt : heap -> nat option -> (herr, heap) sum **)
-
-let h_free_opt h = function
-| Some i -> h_free h i
-| None -> Inr h
-
-(** val h_is_live : heap -> nat -> bool **)
-
-let h_is_live h id =
-  existsb (Nat.eqb id) h.h_live
-
-(** val h_use : heap -> nat option -> (herr, unit) sum **)
-
-let h_use h = function
-| Some i -> if h_is_live h i then Inr () else Inl UseAfterFree
-| None -> Inr ()
-
-(** val mkey_match : node -> node -> bool **)
-
-let mkey_match pc c =
-  (&&) (Z.eqb (n_kl c) (n_kl pc))
-    (strncmp_eq (n_key c) (n_key pc) (Z.to_nat (n_kl c)))
-
-(** val reset_obj : node -> node **)
-
-let reset_obj = function
-| Node (kl, k, _, _, _, _) -> Node (kl, k, TObj, Z0, [], [])
-
-(** val merge_pool : node option -> node -> node **)
-
-let rec merge_pool t p = match p with
-| Node (pkl, pkey, pty, _, _, pch) ->
-  (match pty with
-   | TObj ->
-     let t0 =
-       match t with
-       | Some t0 -> (match n_ty t0 with
-                     | TObj -> t0
-                     | _ -> reset_obj t0)
-       | None -> Node (pkl, pkey, TObj, Z0, [], [])
-     in
-     let rec go tgt = function
-     | [] -> tgt
-     | pc :: l' ->
-       let tgt' =
-         match n_ty pc with
-         | TNull ->
-           (match find_pos (mkey_match pc) (n_ch tgt) with
-            | Some i ->
-              set_ch tgt (app (firstn i (n_ch tgt)) (skipn (S i) (n_ch tgt)))
-            | None -> tgt)
-         | _ ->
-           (match find_pos (mkey_match pc) (n_ch tgt) with
-            | Some i ->
-              (match nth_error (n_ch tgt) i with
-               | Some c ->
-                 let src = merge_pool (Some c) pc in
-                 set_child tgt i
-                   (match n_ty pc with
-                    | TObj -> src
-                    | _ -> copy_data c src)
-               | None -> tgt)
-            | None -> set_ch tgt (app (n_ch tgt) ((merge_pool None pc) :: [])))
-       in
-       go tgt' l'
-     in go t0 pch
-   | _ -> p)
-
-(** val jbn_merge_patch_pool : node -> node -> rc * node **)
-
-let jbn_merge_patch_pool root patch =
-  match n_ty root with
-  | TObj ->
-    (match n_ty patch with
-     | TObj -> (RcOk, (merge_pool (Some root) patch))
-     | _ -> (RcInvArgs, root))
-  | _ -> (RcInvArgs, root)
-
-(** val jbn_merge_patch_node : node -> node -> node **)
-
-let jbn_merge_patch_node root patch =
-  merge_pool (Some root) patch
-
-(** val jbn_patch_auto : fops -> node -> node -> rc * node **)
-
-let jbn_patch_auto fo root patch =
-  match n_ty patch with
-  | TObj -> (RcOk, (merge_pool (Some root) patch))
-  | TArr ->
-    (match create_patch patch with
-     | Inl e -> (e, root)
-     | Inr ops -> patch_node fo root ops)
-  | _ -> (RcInvArgs, root)
-
-(** val wrap_child : seg list -> node option -> node option **)
-
-let rec wrap_child segs v =
-  match segs with
-  | [] -> None
-  | s :: r ->
-    let kl = Z.of_nat (length s) in
-    (match r with
-     | [] ->
-       (match v with
-        | Some v0 -> Some (set_kl (set_key v0 s) kl)
-        | None ->
-          Some (Node (kl, s, TObj, Z0, [],
-            (match wrap_child r v with
-             | Some c -> c :: []
-             | None -> []))))
-     | _ :: _ ->
-       Some (Node (kl, s, TObj, Z0, [],
-         (match wrap_child r v with
-          | Some c -> c :: []
-          | None -> []))))
-
-(** val merge_patch_create :
-    z list -> node option -> (rc, node option) sum **)
-
-let merge_patch_create path v =
-  match path with
-  | [] -> Inr v
-  | z0 :: l ->
-    (match z0 with
-     | Zpos p ->
-       (match p with
-        | XI p0 ->
-          (match p0 with
-           | XI p1 ->
-             (match p1 with
-              | XI p2 ->
-                (match p2 with
-                 | XI p3 ->
-                   (match p3 with
-                    | XO p4 ->
-                      (match p4 with
-                       | XH ->
-                         (match l with
-                          | [] -> Inr v
-                          | _ :: _ ->
-                            (match ptr_parse path with
-                             | PtrOk segs ->
-                               Inr (Some (Node (Z0, [], TObj, Z0, [],
-                                 (match wrap_child segs v with
-                                  | Some c -> c :: []
-                                  | None -> []))))
-                             | PtrErr -> Inl RcPtr
-                             | PtrUnmodelled -> Inl RcUnmodelled))
-                       | _ ->
-                         (match ptr_parse path with
-                          | PtrOk segs ->
-                            Inr (Some (Node (Z0, [], TObj, Z0, [],
-                              (match wrap_child segs v with
-                               | Some c -> c :: []
-                               | None -> []))))
-                          | PtrErr -> Inl RcPtr
-                          | PtrUnmodelled -> Inl RcUnmodelled))
-                    | _ ->
-                      (match ptr_parse path with
-                       | PtrOk segs ->
-                         Inr (Some (Node (Z0, [], TObj, Z0, [],
-                           (match wrap_child segs v with
-                            | Some c -> c :: []
-                            | None -> []))))
-                       | PtrErr -> Inl RcPtr
-                       | PtrUnmodelled -> Inl RcUnmodelled))
-                 | _ ->
-                   (match ptr_parse path with
-                    | PtrOk segs ->
-                      Inr (Some (Node (Z0, [], TObj, Z0, [],
-                        (match wrap_child segs v with
-                         | Some c -> c :: []
-                         | None -> []))))
-                    | PtrErr -> Inl RcPtr
-                    | PtrUnmodelled -> Inl RcUnmodelled))
-              | _ ->
-                (match ptr_parse path with
-                 | PtrOk segs ->
-                   Inr (Some (Node (Z0, [], TObj, Z0, [],
-                     (match wrap_child segs v with
-                      | Some c -> c :: []
-                      | None -> []))))
-                 | PtrErr -> Inl RcPtr
-                 | PtrUnmodelled -> Inl RcUnmodelled))
-           | _ ->
-             (match ptr_parse path with
-              | PtrOk segs ->
-                Inr (Some (Node (Z0, [], TObj, Z0, [],
-                  (match wrap_child segs v with
-                   | Some c -> c :: []
-                   | None -> []))))
-              | PtrErr -> Inl RcPtr
-              | PtrUnmodelled -> Inl RcUnmodelled))
-        | _ ->
-          (match ptr_parse path with
-           | PtrOk segs ->
-             Inr (Some (Node (Z0, [], TObj, Z0, [],
-               (match wrap_child segs v with
-                | Some c -> c :: []
-                | None -> []))))
-           | PtrErr -> Inl RcPtr
-           | PtrUnmodelled -> Inl RcUnmodelled))
-     | _ ->
-       (match ptr_parse path with
-        | PtrOk segs ->
-          Inr (Some (Node (Z0, [], TObj, Z0, [],
-            (match wrap_child segs v with
-             | Some c -> c :: []
-             | None -> []))))
-        | PtrErr -> Inl RcPtr
-        | PtrUnmodelled -> Inl RcUnmodelled))
-
-(** val jbn_merge_patch_path_pool :
-    node -> z list -> node option -> rc * node **)
-
-let jbn_merge_patch_path_pool root path v =
-  match merge_patch_create path v with
-  | Inl e -> (e, root)
-  | Inr o ->
-    (match o with
-     | Some p -> jbn_merge_patch_pool root p
-     | None -> (RcInvArgs, root))
-
-(** val merge_binary :
-    ('a1 -> node) -> (node -> 'a1 option) -> 'a1 -> node -> rc * 'a1 **)
-
-let merge_binary dec enc b patch =
-  match enc (jbn_merge_patch_node (dec b) patch) with
-  | Some b' -> (RcOk, b')
-  | None -> (RcCreation, b)
-
-type hnode =
-| HNode of nat * nat option * z * z list * jty * z * nat option * z list
-   * hnode list
-
-(** val hn_id : hnode -> nat **)
-
-let hn_id = function
-| HNode (i, _, _, _, _, _, _, _, _) -> i
-
-(** val hn_kid : hnode -> nat option **)
-
-let hn_kid = function
-| HNode (_, k, _, _, _, _, _, _, _) -> k
-
-(** val hn_kl : hnode -> z **)
-
-let hn_kl = function
-| HNode (_, _, kl, _, _, _, _, _, _) -> kl
-
-(** val hn_key : hnode -> z list **)
-
-let hn_key = function
-| HNode (_, _, _, k, _, _, _, _, _) -> k
-
-(** val hn_ty : hnode -> jty **)
-
-let hn_ty = function
-| HNode (_, _, _, _, t, _, _, _, _) -> t
-
-(** val hn_vi : hnode -> z **)
-
-let hn_vi = function
-| HNode (_, _, _, _, _, v, _, _, _) -> v
-
-(** val hn_sid : hnode -> nat option **)
-
-let hn_sid = function
-| HNode (_, _, _, _, _, _, s, _, _) -> s
-
-(** val hn_vs : hnode -> z list **)
-
-let hn_vs = function
-| HNode (_, _, _, _, _, _, _, s, _) -> s
-
-(** val hn_ch : hnode -> hnode list **)
-
-let hn_ch = function
-| HNode (_, _, _, _, _, _, _, _, c) -> c
-
-(** val hset_ch : hnode -> hnode list -> hnode **)
-
-let hset_ch n c =
-  let HNode (i, k, kl, ke, t, v, s, vs, _) = n in
-  HNode (i, k, kl, ke, t, v, s, vs, c)
-
-(** val hset_child : hnode -> nat -> hnode -> hnode **)
-
-let hset_child n i c =
-  hset_ch n (app (firstn i (hn_ch n)) (c :: (skipn (S i) (hn_ch n))))
-
-(** val forget : hnode -> node **)
-
-let rec forget = function
-| HNode (_, _, kl, key, ty, vi, _, vs, ch) ->
-  Node (kl, key, ty, vi, vs, (map forget ch))
-
-(** val bindh :
-    (herr, 'a1) sum -> ('a1 -> (herr, 'a2) sum) -> (herr, 'a2) sum **)
-
-let bindh x f =
-  match x with
-  | Inl e -> Inl e
-  | Inr a -> f a
-
-(** val destroy : heap -> hnode -> (herr, heap) sum **)
-
-let rec destroy h = function
-| HNode (id, kid, _, _, ty, _, sid, _, ch) ->
-  bindh
-    (if is_container ty
-     then let rec go h0 = function
-          | [] -> Inr h0
-          | c :: l' -> bindh (destroy h0 c) (fun h' -> go h' l')
-          in go h ch
-     else Inr h) (fun h1 ->
-    bindh (h_free_opt h1 kid) (fun h2 ->
-      bindh (match ty with
-             | TStr -> h_free_opt h2 sid
-             | _ -> Inr h2) (fun h3 -> h_free h3 id)))
-
-(** val destroy_list : heap -> hnode list -> (herr, heap) sum **)
-
-let rec destroy_list h = function
-| [] -> Inr h
-| c :: l' -> bindh (destroy h c) (fun h' -> destroy_list h' l')
-
-(** val hrenumber : z -> hnode list -> hnode list **)
-
-let rec hrenumber i = function
-| [] -> []
-| h :: r ->
-  let HNode (id, k, _, key, t, v, s, vs, c) = h in
-  (HNode (id, k, i, key, t, v, s, vs, c)) :: (hrenumber (Z.add i (Zpos XH)) r)
-
-(** val clone_h : heap -> bool -> node -> heap * hnode **)
-
-let rec clone_h h wk = function
-| Node (kl, key, ty, vi, vs, ch) ->
-  let (id, h1) = h_alloc h in
-  if wk
-  then let (k, h') = h_alloc h1 in
-       let kid = Some k in
-       (match ty with
-        | TNone ->
-          let sid = None in
-          let wk' = match ty with
-                    | TObj -> true
-                    | _ -> false in
-          let (h4, ch') =
-            if is_container ty
-            then let rec go h0 = function
-                 | [] -> (h0, [])
-                 | c :: l' ->
-                   let (h'0, c') = clone_h h0 wk' c in
-                   let (h'', r') = go h'0 l' in (h'', (c' :: r'))
-                 in go h' ch
-            else (h', [])
-          in
-          (h4, (HNode (id, kid, kl,
-          (if wk then firstn (Z.to_nat kl) key else []), ty, vi, sid, vs,
-          (match ty with
-           | TArr -> hrenumber Z0 ch'
-           | _ -> ch'))))
-        | TNull ->
-          let sid = None in
-          let wk' = match ty with
-                    | TObj -> true
-                    | _ -> false in
-          let (h4, ch') =
-            if is_container ty
-            then let rec go h0 = function
-                 | [] -> (h0, [])
-                 | c :: l' ->
-                   let (h'0, c') = clone_h h0 wk' c in
-                   let (h'', r') = go h'0 l' in (h'', (c' :: r'))
-                 in go h' ch
-            else (h', [])
-          in
-          (h4, (HNode (id, kid, kl,
-          (if wk then firstn (Z.to_nat kl) key else []), ty, vi, sid, vs,
-          (match ty with
-           | TArr -> hrenumber Z0 ch'
-           | _ -> ch'))))
-        | TBool ->
-          let sid = None in
-          let wk' = match ty with
-                    | TObj -> true
-                    | _ -> false in
-          let (h4, ch') =
-            if is_container ty
-            then let rec go h0 = function
-                 | [] -> (h0, [])
-                 | c :: l' ->
-                   let (h'0, c') = clone_h h0 wk' c in
-                   let (h'', r') = go h'0 l' in (h'', (c' :: r'))
-                 in go h' ch
-            else (h', [])
-          in
-          (h4, (HNode (id, kid, kl,
-          (if wk then firstn (Z.to_nat kl) key else []), ty, vi, sid, vs,
-          (match ty with
-           | TArr -> hrenumber Z0 ch'
-           | _ -> ch'))))
-        | TI64 ->
-          let sid = None in
-          let wk' = match ty with
-                    | TObj -> true
-                    | _ -> false in
-          let (h4, ch') =
-            if is_container ty
-            then let rec go h0 = function
-                 | [] -> (h0, [])
-                 | c :: l' ->
-                   let (h'0, c') = clone_h h0 wk' c in
-                   let (h'', r') = go h'0 l' in (h'', (c' :: r'))
-                 in go h' ch
-            else (h', [])
-          in
-          (h4, (HNode (id, kid, kl,
-          (if wk then firstn (Z.to_nat kl) key else []), ty, vi, sid, vs,
-          (match ty with
-           | TArr -> hrenumber Z0 ch'
-           | _ -> ch'))))
-        | TF64 ->
-          let sid = None in
-          let wk' = match ty with
-                    | TObj -> true
-                    | _ -> false in
-          let (h4, ch') =
-            if is_container ty
-            then let rec go h0 = function
-                 | [] -> (h0, [])
-                 | c :: l' ->
-                   let (h'0, c') = clone_h h0 wk' c in
-                   let (h'', r') = go h'0 l' in (h'', (c' :: r'))
-                 in go h' ch
-            else (h', [])
-          in
-          (h4, (HNode (id, kid, kl,
-          (if wk then firstn (Z.to_nat kl) key else []), ty, vi, sid, vs,
-          (match ty with
-           | TArr -> hrenumber Z0 ch'
-           | _ -> ch'))))
-        | TStr ->
-          let (s, h'0) = h_alloc h' in
-          let sid = Some s in
-          let wk' = match ty with
-                    | TObj -> true
-                    | _ -> false in
-          let (h4, ch') =
-            if is_container ty
-            then let rec go h0 = function
-                 | [] -> (h0, [])
-                 | c :: l' ->
-                   let (h'1, c') = clone_h h0 wk' c in
-                   let (h'', r') = go h'1 l' in (h'', (c' :: r'))
-                 in go h'0 ch
-            else (h'0, [])
-          in
-          (h4, (HNode (id, kid, kl,
-          (if wk then firstn (Z.to_nat kl) key else []), ty, vi, sid, vs,
-          (match ty with
-           | TArr -> hrenumber Z0 ch'
-           | _ -> ch'))))
-        | _ ->
-          let sid = None in
-          let wk' = match ty with
-                    | TObj -> true
-                    | _ -> false in
-          let (h4, ch') =
-            if is_container ty
-            then let rec go h0 = function
-                 | [] -> (h0, [])
-                 | c :: l' ->
-                   let (h'0, c') = clone_h h0 wk' c in
-                   let (h'', r') = go h'0 l' in (h'', (c' :: r'))
-                 in go h' ch
-            else (h', [])
-          in
-          (h4, (HNode (id, kid, kl,
-          (if wk then firstn (Z.to_nat kl) key else []), ty, vi, sid, vs,
-          (match ty with
-           | TArr -> hrenumber Z0 ch'
-           | _ -> ch')))))
-  else let kid = None in
-       (match ty with
-        | TNone ->
-          let sid = None in
-          let wk' = match ty with
-                    | TObj -> true
-                    | _ -> false in
-          let (h4, ch') =
-            if is_container ty
-            then let rec go h0 = function
-                 | [] -> (h0, [])
-                 | c :: l' ->
-                   let (h', c') = clone_h h0 wk' c in
-                   let (h'', r') = go h' l' in (h'', (c' :: r'))
-                 in go h1 ch
-            else (h1, [])
-          in
-          (h4, (HNode (id, kid, kl,
-          (if wk then firstn (Z.to_nat kl) key else []), ty, vi, sid, vs,
-          (match ty with
-           | TArr -> hrenumber Z0 ch'
-           | _ -> ch'))))
-        | TNull ->
-          let sid = None in
-          let wk' = match ty with
-                    | TObj -> true
-                    | _ -> false in
-          let (h4, ch') =
-            if is_container ty
-            then let rec go h0 = function
-                 | [] -> (h0, [])
-                 | c :: l' ->
-                   let (h', c') = clone_h h0 wk' c in
-                   let (h'', r') = go h' l' in (h'', (c' :: r'))
-                 in go h1 ch
-            else (h1, [])
-          in
-          (h4, (HNode (id, kid, kl,
-          (if wk then firstn (Z.to_nat kl) key else []), ty, vi, sid, vs,
-          (match ty with
-           | TArr -> hrenumber Z0 ch'
-           | _ -> ch'))))
-        | TBool ->
-          let sid = None in
-          let wk' = match ty with
-                    | TObj -> true
-                    | _ -> false in
-          let (h4, ch') =
-            if is_container ty
-            then let rec go h0 = function
-                 | [] -> (h0, [])
-                 | c :: l' ->
-                   let (h', c') = clone_h h0 wk' c in
-                   let (h'', r') = go h' l' in (h'', (c' :: r'))
-                 in go h1 ch
-            else (h1, [])
-          in
-          (h4, (HNode (id, kid, kl,
-          (if wk then firstn (Z.to_nat kl) key else []), ty, vi, sid, vs,
-          (match ty with
-           | TArr -> hrenumber Z0 ch'
-           | _ -> ch'))))
-        | TI64 ->
-          let sid = None in
-          let wk' = match ty with
-                    | TObj -> true
-                    | _ -> false in
-          let (h4, ch') =
-            if is_container ty
-            then let rec go h0 = function
-                 | [] -> (h0, [])
-                 | c :: l' ->
-                   let (h', c') = clone_h h0 wk' c in
-                   let (h'', r') = go h' l' in (h'', (c' :: r'))
-                 in go h1 ch
-            else (h1, [])
-          in
-          (h4, (HNode (id, kid, kl,
-          (if wk then firstn (Z.to_nat kl) key else []), ty, vi, sid, vs,
-          (match ty with
-           | TArr -> hrenumber Z0 ch'
-           | _ -> ch'))))
-        | TF64 ->
-          let sid = None in
-          let wk' = match ty with
-                    | TObj -> true
-                    | _ -> false in
-          let (h4, ch') =
-            if is_container ty
-            then let rec go h0 = function
-                 | [] -> (h0, [])
-                 | c :: l' ->
-                   let (h', c') = clone_h h0 wk' c in
-                   let (h'', r') = go h' l' in (h'', (c' :: r'))
-                 in go h1 ch
-            else (h1, [])
-          in
-          (h4, (HNode (id, kid, kl,
-          (if wk then firstn (Z.to_nat kl) key else []), ty, vi, sid, vs,
-          (match ty with
-           | TArr -> hrenumber Z0 ch'
-           | _ -> ch'))))
-        | TStr ->
-          let (s, h') = h_alloc h1 in
-          let sid = Some s in
-          let wk' = match ty with
-                    | TObj -> true
-                    | _ -> false in
-          let (h4, ch') =
-            if is_container ty
-            then let rec go h0 = function
-                 | [] -> (h0, [])
-                 | c :: l' ->
-                   let (h'0, c') = clone_h h0 wk' c in
-                   let (h'', r') = go h'0 l' in (h'', (c' :: r'))
-                 in go h' ch
-            else (h', [])
-          in
-          (h4, (HNode (id, kid, kl,
-          (if wk then firstn (Z.to_nat kl) key else []), ty, vi, sid, vs,
-          (match ty with
-           | TArr -> hrenumber Z0 ch'
-           | _ -> ch'))))
-        | _ ->
-          let sid = None in
-          let wk' = match ty with
-                    | TObj -> true
-                    | _ -> false in
-          let (h4, ch') =
-            if is_container ty
-            then let rec go h0 = function
-                 | [] -> (h0, [])
-                 | c :: l' ->
-                   let (h', c') = clone_h h0 wk' c in
-                   let (h'', r') = go h' l' in (h'', (c' :: r'))
-                 in go h1 ch
-            else (h1, [])
-          in
-          (h4, (HNode (id, kid, kl,
-          (if wk then firstn (Z.to_nat kl) key else []), ty, vi, sid, vs,
-          (match ty with
-           | TArr -> hrenumber Z0 ch'
-           | _ -> ch')))))
-
-(** val hfind : heap -> node -> hnode list -> (herr, nat option) sum **)
-
-let rec hfind h pc = function
-| [] -> Inr None
+  (&&)
+    (forallb (fun m ->
+      (&&)
+        ((&&) (forallb char_ok (fst m))
+          (Z.leb (zlen (fst m)) jbinn_MAX_BIN_KEY_LEN)) (wf (snd m))) ms)
+    (keys_unique (map fst ms))
+| _ -> true
+
+type pres =
+| PErr
+| PUndef
+| POk of z list list
+
+(** val seg_scan : z list -> z list -> (z list * z list) option **)
+
+let rec seg_scan p acc =
+  match p with
+  | [] -> Some ((rev acc), [])
+  | c :: p1 ->
+    if Z.eqb c (Zpos (XI (XI (XI (XI (XO XH))))))
+    then Some ((rev acc), p)
+    else if Z.eqb c (Zpos (XO (XI (XI (XI (XI (XI XH)))))))
+         then (match p1 with
+               | [] -> None
+               | d :: p2 ->
+                 if Z.eqb d (Zpos (XO (XO (XO (XO (XI XH))))))
+                 then seg_scan p2 ((Zpos (XO (XI (XI (XI (XI (XI
+                        XH))))))) :: acc)
+                 else if Z.eqb d (Zpos (XI (XO (XO (XO (XI XH))))))
+                      then seg_scan p2 ((Zpos (XI (XI (XI (XI (XO
+                             XH)))))) :: acc)
+                      else None)
+         else seg_scan p1 (c :: acc)
+
+(** val segs_scan : nat -> z list -> z list list option **)
+
+let rec segs_scan cnt p =
+  match cnt with
+  | O -> Some []
+  | S k ->
+    (match p with
+     | [] -> Some []
+     | c :: p1 ->
+       if Z.eqb c (Zpos (XI (XI (XI (XI (XO XH))))))
+       then (match seg_scan p1 [] with
+             | Some p0 ->
+               let (s, rest) = p0 in
+               (match segs_scan k rest with
+                | Some ss -> Some (s :: ss)
+                | None -> None)
+             | None -> None)
+       else None)
+
+(** val count_slash : z list -> nat **)
+
+let count_slash p =
+  length (filter (fun c -> Z.eqb c (Zpos (XI (XI (XI (XI (XO XH))))))) p)
+
+(** val ptr_parse3 : z list -> pres **)
+
+let ptr_parse3 path =
+  let p = cstr path in
+  (match p with
+   | [] -> POk []
+   | c :: _ ->
+     if negb (Z.eqb c (Zpos (XI (XI (XI (XI (XO XH)))))))
+     then PErr
+     else if (&&) (Z.gtb (zlen p) (Zpos XH))
+               (Z.eqb (last p Z0) (Zpos (XI (XI (XI (XI (XO XH)))))))
+          then PErr
+          else (match segs_scan (count_slash p) p with
+                | Some ss -> POk ss
+                | None -> PUndef))
+
+(** val rfc_unescape : z list -> z list option **)
+
+let rec rfc_unescape = function
+| [] -> Some []
 | c :: r ->
-  if Z.eqb (hn_kl c) (n_kl pc)
-  then bindh (h_use h (hn_kid c)) (fun _ ->
-         if strncmp_eq (hn_key c) (n_key pc) (Z.to_nat (hn_kl c))
-         then Inr (Some O)
-         else bindh (hfind h pc r) (fun o -> Inr
-                (match o with
-                 | Some i -> Some (S i)
-                 | None -> None)))
-  else bindh (hfind h pc r) (fun o -> Inr
-         (match o with
-          | Some i -> Some (S i)
-          | None -> None))
+  if Z.eqb c (Zpos (XO (XI (XI (XI (XI (XI XH)))))))
+  then (match r with
+        | [] -> None
+        | d :: r' ->
+          if Z.eqb d (Zpos (XO (XO (XO (XO (XI XH))))))
+          then option_map (fun x -> (Zpos (XO (XI (XI (XI (XI (XI
+                 XH))))))) :: x) (rfc_unescape r')
+          else if Z.eqb d (Zpos (XI (XO (XO (XO (XI XH))))))
+               then option_map (fun x -> (Zpos (XI (XI (XI (XI (XO
+                      XH)))))) :: x) (rfc_unescape r')
+               else None)
+  else option_map (fun x -> c :: x) (rfc_unescape r)
 
-(** val merge_h : heap -> hnode option -> node -> (herr, heap * hnode) sum **)
+(** val split_slash : z list -> z list -> z list list **)
 
-let rec merge_h h t p = match p with
-| Node (pkl, pkey, pty, _, _, pch) ->
-  (match pty with
-   | TObj ->
-     bindh
-       (match t with
-        | Some h0 ->
-          let HNode (id, kid, kl, key, ty, vi, sid, vs, ch) = h0 in
-          (match ty with
-           | TStr ->
-             bindh (h_free_opt h sid) (fun h1 -> Inr (h1, (HNode (id, kid,
-               kl, key, TObj, Z0, None, [], []))))
-           | TObj -> Inr (h, (HNode (id, kid, kl, key, ty, vi, sid, vs, ch)))
-           | TArr ->
-             bindh (destroy_list h ch) (fun h1 -> Inr (h1, (HNode (id, kid,
-               kl, key, TObj, Z0, None, [], []))))
-           | _ -> Inr (h, (HNode (id, kid, kl, key, TObj, Z0, None, [], []))))
-        | None ->
-          let (id, h1) = h_alloc h in
-          let (kid, h2) = h_alloc h1 in
-          Inr (h2, (HNode (id, (Some kid), pkl, pkey, TObj, Z0, None, [],
-          [])))) (fun ht0 ->
-       let rec go h0 tgt = function
-       | [] -> Inr (h0, tgt)
-       | pc :: l' ->
-         bindh
-           (bindh (hfind h0 pc (hn_ch tgt)) (fun pos ->
-             match n_ty pc with
-             | TNone ->
-               (match pos with
-                | Some i ->
-                  (match nth_error (hn_ch tgt) i with
-                   | Some c ->
-                     bindh
-                       (match hn_ty c with
-                        | TStr ->
-                          (match n_ty pc with
-                           | TObj -> Inr h0
-                           | _ -> h_free_opt h0 (hn_sid c))
-                        | _ -> Inr h0) (fun h1 ->
-                       bindh (merge_h h1 (Some c) pc) (fun hs ->
-                         let (h2, src) = hs in
-                         (match n_ty pc with
-                          | TObj -> Inr (h2, (hset_child tgt i src))
-                          | _ ->
-                            bindh
-                              (if is_container (hn_ty c)
-                               then destroy_list h2 (hn_ch c)
-                               else Inr h2) (fun h3 ->
-                              let c' =
-                                let HNode (id, kid, kl, key, _, _, _, _, _) =
-                                  c
-                                in
-                                HNode (id, kid, kl, key, (hn_ty src),
-                                (hn_vi src), (hn_sid src), (hn_vs src),
-                                (hn_ch src))
-                              in
-                              bindh (h_free_opt h3 (hn_kid src)) (fun h4 ->
-                                bindh (h_free h4 (hn_id src)) (fun h5 -> Inr
-                                  (h5, (hset_child tgt i c'))))))))
-                   | None -> Inr (h0, tgt))
-                | None ->
-                  bindh (merge_h h0 None pc) (fun hs ->
-                    let (h1, nn) = hs in
-                    Inr (h1, (hset_ch tgt (app (hn_ch tgt) (nn :: []))))))
-             | TNull ->
-               (match pos with
-                | Some i ->
-                  (match nth_error (hn_ch tgt) i with
-                   | Some c ->
-                     bindh (destroy h0 c) (fun h1 -> Inr (h1,
-                       (hset_ch tgt
-                         (app (firstn i (hn_ch tgt))
-                           (skipn (S i) (hn_ch tgt))))))
-                   | None -> Inr (h0, tgt))
-                | None -> Inr (h0, tgt))
-             | TBool ->
-               (match pos with
-                | Some i ->
-                  (match nth_error (hn_ch tgt) i with
-                   | Some c ->
-                     bindh
-                       (match hn_ty c with
-                        | TStr ->
-                          (match n_ty pc with
-                           | TObj -> Inr h0
-                           | _ -> h_free_opt h0 (hn_sid c))
-                        | _ -> Inr h0) (fun h1 ->
-                       bindh (merge_h h1 (Some c) pc) (fun hs ->
-                         let (h2, src) = hs in
-                         (match n_ty pc with
-                          | TObj -> Inr (h2, (hset_child tgt i src))
-                          | _ ->
-                            bindh
-                              (if is_container (hn_ty c)
-                               then destroy_list h2 (hn_ch c)
-                               else Inr h2) (fun h3 ->
-                              let c' =
-                                let HNode (id, kid, kl, key, _, _, _, _, _) =
-                                  c
-                                in
-                                HNode (id, kid, kl, key, (hn_ty src),
-                                (hn_vi src), (hn_sid src), (hn_vs src),
-                                (hn_ch src))
-                              in
-                              bindh (h_free_opt h3 (hn_kid src)) (fun h4 ->
-                                bindh (h_free h4 (hn_id src)) (fun h5 -> Inr
-                                  (h5, (hset_child tgt i c'))))))))
-                   | None -> Inr (h0, tgt))
-                | None ->
-                  bindh (merge_h h0 None pc) (fun hs ->
-                    let (h1, nn) = hs in
-                    Inr (h1, (hset_ch tgt (app (hn_ch tgt) (nn :: []))))))
-             | TI64 ->
-               (match pos with
-                | Some i ->
-                  (match nth_error (hn_ch tgt) i with
-                   | Some c ->
-                     bindh
-                       (match hn_ty c with
-                        | TStr ->
-                          (match n_ty pc with
-                           | TObj -> Inr h0
-                           | _ -> h_free_opt h0 (hn_sid c))
-                        | _ -> Inr h0) (fun h1 ->
-                       bindh (merge_h h1 (Some c) pc) (fun hs ->
-                         let (h2, src) = hs in
-                         (match n_ty pc with
-                          | TObj -> Inr (h2, (hset_child tgt i src))
-                          | _ ->
-                            bindh
-                              (if is_container (hn_ty c)
-                               then destroy_list h2 (hn_ch c)
-                               else Inr h2) (fun h3 ->
-                              let c' =
-                                let HNode (id, kid, kl, key, _, _, _, _, _) =
-                                  c
-                                in
-                                HNode (id, kid, kl, key, (hn_ty src),
-                                (hn_vi src), (hn_sid src), (hn_vs src),
-                                (hn_ch src))
-                              in
-                              bindh (h_free_opt h3 (hn_kid src)) (fun h4 ->
-                                bindh (h_free h4 (hn_id src)) (fun h5 -> Inr
-                                  (h5, (hset_child tgt i c'))))))))
-                   | None -> Inr (h0, tgt))
-                | None ->
-                  bindh (merge_h h0 None pc) (fun hs ->
-                    let (h1, nn) = hs in
-                    Inr (h1, (hset_ch tgt (app (hn_ch tgt) (nn :: []))))))
-             | TF64 ->
-               (match pos with
-                | Some i ->
-                  (match nth_error (hn_ch tgt) i with
-                   | Some c ->
-                     bindh
-                       (match hn_ty c with
-                        | TStr ->
-                          (match n_ty pc with
-                           | TObj -> Inr h0
-                           | _ -> h_free_opt h0 (hn_sid c))
-                        | _ -> Inr h0) (fun h1 ->
-                       bindh (merge_h h1 (Some c) pc) (fun hs ->
-                         let (h2, src) = hs in
-                         (match n_ty pc with
-                          | TObj -> Inr (h2, (hset_child tgt i src))
-                          | _ ->
-                            bindh
-                              (if is_container (hn_ty c)
-                               then destroy_list h2 (hn_ch c)
-                               else Inr h2) (fun h3 ->
-                              let c' =
-                                let HNode (id, kid, kl, key, _, _, _, _, _) =
-                                  c
-                                in
-                                HNode (id, kid, kl, key, (hn_ty src),
-                                (hn_vi src), (hn_sid src), (hn_vs src),
-                                (hn_ch src))
-                              in
-                              bindh (h_free_opt h3 (hn_kid src)) (fun h4 ->
-                                bindh (h_free h4 (hn_id src)) (fun h5 -> Inr
-                                  (h5, (hset_child tgt i c'))))))))
-                   | None -> Inr (h0, tgt))
-                | None ->
-                  bindh (merge_h h0 None pc) (fun hs ->
-                    let (h1, nn) = hs in
-                    Inr (h1, (hset_ch tgt (app (hn_ch tgt) (nn :: []))))))
-             | TStr ->
-               (match pos with
-                | Some i ->
-                  (match nth_error (hn_ch tgt) i with
-                   | Some c ->
-                     bindh
-                       (match hn_ty c with
-                        | TStr ->
-                          (match n_ty pc with
-                           | TObj -> Inr h0
-                           | _ -> h_free_opt h0 (hn_sid c))
-                        | _ -> Inr h0) (fun h1 ->
-                       bindh (merge_h h1 (Some c) pc) (fun hs ->
-                         let (h2, src) = hs in
-                         (match n_ty pc with
-                          | TObj -> Inr (h2, (hset_child tgt i src))
-                          | _ ->
-                            bindh
-                              (if is_container (hn_ty c)
-                               then destroy_list h2 (hn_ch c)
-                               else Inr h2) (fun h3 ->
-                              let c' =
-                                let HNode (id, kid, kl, key, _, _, _, _, _) =
-                                  c
-                                in
-                                HNode (id, kid, kl, key, (hn_ty src),
-                                (hn_vi src), (hn_sid src), (hn_vs src),
-                                (hn_ch src))
-                              in
-                              bindh (h_free_opt h3 (hn_kid src)) (fun h4 ->
-                                bindh (h_free h4 (hn_id src)) (fun h5 -> Inr
-                                  (h5, (hset_child tgt i c'))))))))
-                   | None -> Inr (h0, tgt))
-                | None ->
-                  bindh (merge_h h0 None pc) (fun hs ->
-                    let (h1, nn) = hs in
-                    Inr (h1, (hset_ch tgt (app (hn_ch tgt) (nn :: []))))))
-             | TObj ->
-               (match pos with
-                | Some i ->
-                  (match nth_error (hn_ch tgt) i with
-                   | Some c ->
-                     bindh
-                       (match hn_ty c with
-                        | TStr ->
-                          (match n_ty pc with
-                           | TObj -> Inr h0
-                           | _ -> h_free_opt h0 (hn_sid c))
-                        | _ -> Inr h0) (fun h1 ->
-                       bindh (merge_h h1 (Some c) pc) (fun hs ->
-                         let (h2, src) = hs in
-                         (match n_ty pc with
-                          | TObj -> Inr (h2, (hset_child tgt i src))
-                          | _ ->
-                            bindh
-                              (if is_container (hn_ty c)
-                               then destroy_list h2 (hn_ch c)
-                               else Inr h2) (fun h3 ->
-                              let c' =
-                                let HNode (id, kid, kl, key, _, _, _, _, _) =
-                                  c
-                                in
-                                HNode (id, kid, kl, key, (hn_ty src),
-                                (hn_vi src), (hn_sid src), (hn_vs src),
-                                (hn_ch src))
-                              in
-                              bindh (h_free_opt h3 (hn_kid src)) (fun h4 ->
-                                bindh (h_free h4 (hn_id src)) (fun h5 -> Inr
-                                  (h5, (hset_child tgt i c'))))))))
-                   | None -> Inr (h0, tgt))
-                | None ->
-                  bindh (merge_h h0 None pc) (fun hs ->
-                    let (h1, nn) = hs in
-                    Inr (h1, (hset_ch tgt (app (hn_ch tgt) (nn :: []))))))
-             | TArr ->
-               (match pos with
-                | Some i ->
-                  (match nth_error (hn_ch tgt) i with
-                   | Some c ->
-                     bindh
-                       (match hn_ty c with
-                        | TStr ->
-                          (match n_ty pc with
-                           | TObj -> Inr h0
-                           | _ -> h_free_opt h0 (hn_sid c))
-                        | _ -> Inr h0) (fun h1 ->
-                       bindh (merge_h h1 (Some c) pc) (fun hs ->
-                         let (h2, src) = hs in
-                         (match n_ty pc with
-                          | TObj -> Inr (h2, (hset_child tgt i src))
-                          | _ ->
-                            bindh
-                              (if is_container (hn_ty c)
-                               then destroy_list h2 (hn_ch c)
-                               else Inr h2) (fun h3 ->
-                              let c' =
-                                let HNode (id, kid, kl, key, _, _, _, _, _) =
-                                  c
-                                in
-                                HNode (id, kid, kl, key, (hn_ty src),
-                                (hn_vi src), (hn_sid src), (hn_vs src),
-                                (hn_ch src))
-                              in
-                              bindh (h_free_opt h3 (hn_kid src)) (fun h4 ->
-                                bindh (h_free h4 (hn_id src)) (fun h5 -> Inr
-                                  (h5, (hset_child tgt i c'))))))))
-                   | None -> Inr (h0, tgt))
-                | None ->
-                  bindh (merge_h h0 None pc) (fun hs ->
-                    let (h1, nn) = hs in
-                    Inr (h1, (hset_ch tgt (app (hn_ch tgt) (nn :: []))))))))
-           (fun ht -> let (h', tgt') = ht in go h' tgt' l')
-       in go (fst ht0) (snd ht0) pch)
-   | _ -> Inr (clone_h h true p))
+let rec split_slash p cur =
+  match p with
+  | [] -> (rev cur) :: []
+  | c :: r ->
+    if Z.eqb c (Zpos (XI (XI (XI (XI (XO XH))))))
+    then (rev cur) :: (split_slash r [])
+    else split_slash r (c :: cur)
 
-(** val jbn_merge_patch_heap :
-    heap -> hnode -> node -> (herr, (rc * heap) * hnode) sum **)
+(** val all_some : 'a1 option list -> 'a1 list option **)
 
-let jbn_merge_patch_heap h root patch =
-  match hn_ty root with
-  | TObj ->
-    (match n_ty patch with
-     | TObj ->
-       bindh (merge_h h (Some root) patch) (fun hs -> Inr ((RcOk, (fst hs)),
-         (snd hs)))
-     | _ -> Inr ((RcInvArgs, h), root))
-  | _ -> Inr ((RcInvArgs, h), root)
+let rec all_some = function
+| [] -> Some []
+| o :: r ->
+  (match o with
+   | Some x ->
+     (match all_some r with
+      | Some xs -> Some (x :: xs)
+      | None -> None)
+   | None -> None)
 
-(** val jbn_merge_patch_path_heap :
-    heap -> hnode -> z list -> node option -> (herr, (rc * heap) * hnode) sum **)
+(** val rfc_ptr_parse : z list -> z list list option **)
 
-let jbn_merge_patch_path_heap h root path v =
-  match merge_patch_create path v with
-  | Inl e -> Inr ((e, h), root)
-  | Inr o ->
-    (match o with
-     | Some p -> jbn_merge_patch_heap h root p
-     | None -> Inr ((RcInvArgs, h), root))
-
-(** val heap_of : node -> heap * hnode **)
-
-let heap_of doc =
-  clone_h h_empty false doc
-
-type sseg = z list
-
-(** val s_is_dash : sseg -> bool **)
-
-let s_is_dash = function
-| [] -> false
-| z0 :: l ->
-  (match z0 with
-   | Zpos p ->
-     (match p with
-      | XI p0 ->
-        (match p0 with
-         | XO p1 ->
-           (match p1 with
-            | XI p2 ->
-              (match p2 with
-               | XI p3 ->
-                 (match p3 with
-                  | XO p4 ->
-                    (match p4 with
-                     | XH -> (match l with
-                              | [] -> true
-                              | _ :: _ -> false)
-                     | _ -> false)
-                  | _ -> false)
-               | _ -> false)
-            | _ -> false)
-         | _ -> false)
-      | _ -> false)
-   | _ -> false)
-
-type cfg = { c_look : (sseg -> z option); c_ins : (sseg -> z option);
-             c_lenient : bool }
+let rfc_ptr_parse = function
+| [] -> Some []
+| c :: r ->
+  if Z.eqb c (Zpos (XI (XI (XI (XI (XO XH))))))
+  then all_some (map rfc_unescape (split_slash r []))
+  else None
 
 (** val is_digit : z -> bool **)
 
@@ -3315,383 +1835,448 @@ let is_digit c =
   (&&) (Z.leb (Zpos (XO (XO (XO (XO (XI XH)))))) c)
     (Z.leb c (Zpos (XI (XO (XO (XI (XI XH)))))))
 
-(** val dec_val : sseg -> z **)
+(** val rfc_index : z list -> z option **)
 
-let dec_val s =
-  fold_left (fun a c ->
-    Z.add (Z.mul a (Zpos (XO (XI (XO XH)))))
-      (Z.sub c (Zpos (XO (XO (XO (XO (XI XH)))))))) s Z0
-
-(** val strict_idx : sseg -> z option **)
-
-let strict_idx s = match s with
+let rfc_index s = match s with
 | [] -> None
 | c :: r ->
-  if Z.eqb c (Zpos (XO (XO (XO (XO (XI XH))))))
-  then (match r with
-        | [] -> Some Z0
-        | _ :: _ -> None)
-  else if (&&) (forallb is_digit s)
-            (Nat.leb (length s) (S (S (S (S (S (S (S (S (S O))))))))))
-       then Some (dec_val s)
-       else None
+  (match r with
+   | [] ->
+     if is_digit c
+     then Some (Z.sub c (Zpos (XO (XO (XO (XO (XI XH)))))))
+     else None
+   | _ :: _ ->
+     if (&&)
+          ((&&) (Z.leb (Zpos (XI (XO (XO (XO (XI XH)))))) c)
+            (Z.leb c (Zpos (XI (XO (XO (XI (XI XH)))))))) (forallb is_digit r)
+     then Some
+            (fold_left (fun a d ->
+              Z.add (Z.mul a (Zpos (XO (XI (XO XH)))))
+                (Z.sub d (Zpos (XO (XO (XO (XO (XI XH)))))))) s Z0)
+     else None)
 
-(** val strict : cfg **)
+(** val find_key : z list -> (z list * jval) list -> jval option **)
 
-let strict =
-  { c_look = strict_idx; c_ins = strict_idx; c_lenient = false }
-
-(** val lenient : cfg **)
-
-let lenient =
-  { c_look = (fun s -> Some (atoi s)); c_ins = (fun s -> Some
-    (sw (Zpos (XO (XO (XO (XO (XO XH)))))) (atoi s))); c_lenient = true }
-
-(** val lookup : sseg -> (sseg * jval) list -> jval option **)
-
-let rec lookup k = function
+let rec find_key k = function
 | [] -> None
-| p :: r -> let (k', v) = p in if bytes_eqb k' k then Some v else lookup k r
+| p :: r -> let (k', x) = p in if bytes_eqb k k' then Some x else find_key k r
 
-(** val set_member :
-    sseg -> jval -> (sseg * jval) list -> (sseg * jval) list **)
+(** val rfc6901_at : z list list -> jval -> jval option **)
 
-let rec set_member k x = function
-| [] -> []
-| p :: r ->
-  let (k', v) = p in
-  if bytes_eqb k' k then (k', x) :: r else (k', v) :: (set_member k x r)
-
-(** val remove_member : sseg -> (sseg * jval) list -> (sseg * jval) list **)
-
-let rec remove_member k = function
-| [] -> []
-| p :: r ->
-  let (k', v) = p in
-  if bytes_eqb k' k then r else (k', v) :: (remove_member k r)
-
-(** val aidx : cfg -> jval list -> sseg -> nat option **)
-
-let aidx c l s =
-  if s_is_dash s
-  then if c.c_lenient
-       then (match l with
-             | [] -> None
-             | _ :: _ -> Some (pred (length l)))
-       else None
-  else (match c.c_look s with
+let rec rfc6901_at segs v =
+  match segs with
+  | [] -> Some v
+  | s :: rest ->
+    (match v with
+     | JArr items ->
+       (match rfc_index s with
         | Some i ->
-          if (&&) (Z.leb Z0 i) (Z.ltb i (Z.of_nat (length l)))
-          then Some (Z.to_nat i)
-          else None
+          (match nth_error items (Z.to_nat i) with
+           | Some x -> rfc6901_at rest x
+           | None -> None)
         | None -> None)
+     | JObj ms ->
+       (match find_key s ms with
+        | Some x -> rfc6901_at rest x
+        | None -> None)
+     | _ -> None)
 
-(** val jget : cfg -> jval -> sseg list -> jval option **)
+(** val digits_rev : nat -> z -> z list **)
 
-let rec jget c v = function
-| [] -> Some v
-| s :: r ->
-  (match v with
-   | JArr l ->
-     (match aidx c l s with
-      | Some i ->
-        (match nth_error l i with
-         | Some x -> jget c x r
-         | None -> None)
-      | None -> None)
-   | JObj ms -> (match lookup s ms with
-                 | Some x -> jget c x r
-                 | None -> None)
-   | _ -> None)
+let rec digits_rev fuel n0 =
+  match fuel with
+  | O -> []
+  | S f ->
+    if Z.ltb n0 (Zpos (XO (XI (XO XH))))
+    then (Z.add (Zpos (XO (XO (XO (XO (XI XH)))))) n0) :: []
+    else (Z.add (Zpos (XO (XO (XO (XO (XI XH))))))
+           (Z.modulo n0 (Zpos (XO (XI (XO XH)))))) :: (digits_rev f
+                                                        (Z.div n0 (Zpos (XO
+                                                          (XI (XO XH))))))
 
-(** val jmod :
-    cfg -> jval -> sseg list -> (jval -> sseg -> jval option) -> jval option **)
+(** val itoa : z -> z list **)
 
-let rec jmod c v p f =
-  match p with
-  | [] -> None
-  | s :: r ->
-    (match r with
-     | [] -> f v s
-     | _ :: _ ->
-       (match v with
-        | JArr l ->
-          (match aidx c l s with
-           | Some i ->
-             (match nth_error l i with
-              | Some x ->
-                (match jmod c x r f with
-                 | Some x' ->
-                   Some (JArr (app (firstn i l) (x' :: (skipn (S i) l))))
-                 | None -> None)
-              | None -> None)
-           | None -> None)
-        | JObj ms ->
-          (match lookup s ms with
-           | Some x ->
-             (match jmod c x r f with
-              | Some x' -> Some (JObj (set_member s x' ms))
-              | None -> None)
-           | None -> None)
-        | _ -> None))
+let itoa n0 =
+  rev (digits_rev (S (S (S (S (S (S (S (S (S (S (S O))))))))))) n0)
 
-(** val remove_here : cfg -> jval -> sseg -> jval option **)
+(** val star : z list -> bool **)
 
-let remove_here c parent s =
-  match parent with
-  | JArr l ->
-    (match aidx c l s with
-     | Some i -> Some (JArr (app (firstn i l) (skipn (S i) l)))
-     | None -> None)
+let star = function
+| [] -> false
+| z0 :: l ->
+  (match z0 with
+   | Zpos p ->
+     (match p with
+      | XO p0 ->
+        (match p0 with
+         | XI p1 ->
+           (match p1 with
+            | XO p2 ->
+              (match p2 with
+               | XI p3 ->
+                 (match p3 with
+                  | XO p4 ->
+                    (match p4 with
+                     | XH -> (match l with
+                              | [] -> true
+                              | _ :: _ -> false)
+                     | _ -> false)
+                  | _ -> false)
+               | _ -> false)
+            | _ -> false)
+         | _ -> false)
+      | _ -> false)
+   | _ -> false)
+
+(** val seg_at : z list list -> z -> z list **)
+
+let seg_at ptr lvl =
+  nth (Z.to_nat lvl) ptr []
+
+(** val strncmp_eq : z list -> z list -> z -> bool **)
+
+let strncmp_eq a b n0 =
+  bytes_eqb (zfirst n0 (cstr a)) (zfirst n0 (cstr b))
+
+(** val upd_jbl : z list list -> z -> z -> z list option -> z -> z * bool **)
+
+let upd_jbl ptr pos lvl key idx =
+  let cnt = zlen ptr in
+  if Z.ltb lvl cnt
+  then let pos1 = if Z.geb pos lvl then Z.sub lvl (Zpos XH) else pos in
+       if Z.eqb (Z.add pos1 (Zpos XH)) lvl
+       then let keyptr = match key with
+                         | Some k -> cstr k
+                         | None -> itoa idx in
+            let seg = seg_at ptr lvl in
+            if (||) (bytes_eqb keyptr seg) (star seg)
+            then (lvl, (Z.eqb cnt (Z.add lvl (Zpos XH))))
+            else (pos1, false)
+       else (pos1, false)
+  else (pos, false)
+
+(** val upd_jbn : z list list -> z -> z -> z list option -> z -> z * bool **)
+
+let upd_jbn ptr pos lvl key idx =
+  let cnt = zlen ptr in
+  if Z.ltb lvl cnt
+  then let pos1 = if Z.geb pos lvl then Z.sub lvl (Zpos XH) else pos in
+       if Z.eqb (Z.add pos1 (Zpos XH)) lvl
+       then let keyptr = match key with
+                         | Some k -> k
+                         | None -> itoa idx in
+            let idx' = match key with
+                       | Some _ -> idx
+                       | None -> zlen (itoa idx)
+            in
+            let seg = seg_at ptr lvl in
+            let jplen = zlen seg in
+            if (||) ((&&) (Z.eqb idx' jplen) (strncmp_eq keyptr seg idx'))
+                 (star seg)
+            then (lvl, (Z.eqb cnt (Z.add lvl (Zpos XH))))
+            else (pos1, false)
+       else (pos1, false)
+  else (pos, false)
+
+type 'n kres =
+| KNot
+| KErr of z
+| KSome of ((z list option * z) * 'n) list
+
+(** val e_INVALID : z **)
+
+let e_INVALID =
+  Zpos XH
+
+(** val e_NESTING : z **)
+
+let e_NESTING =
+  Zpos (XO XH)
+
+(** val e_FUEL : z **)
+
+let e_FUEL =
+  Zpos (XI XH)
+
+(** val e_DECODE : z **)
+
+let e_DECODE =
+  Zpos (XO (XO XH))
+
+type 'n vst = { v_pos : z; v_res : 'n option; v_term : bool }
+
+type 'n vr =
+| VErr of z
+| VOk of 'n vst
+
+(** val visit :
+    ('a1 -> 'a1 kres) -> (z list list -> z -> z -> z list option -> z ->
+    z * bool) -> bool -> z list list -> nat -> z -> ((z list
+    option * z) * 'a1) list -> 'a1 vst -> 'a1 vr **)
+
+let rec visit kids upd enter_after_terminate ptr fuel lvl cs st =
+  match fuel with
+  | O -> VErr e_FUEL
+  | S f ->
+    let rec loop cs0 st0 =
+      match cs0 with
+      | [] -> VOk st0
+      | p :: rest ->
+        let (p0, n0) = p in
+        let (key, idx) = p0 in
+        if st0.v_term
+        then VOk st0
+        else let (pos', matched) = upd ptr st0.v_pos lvl key idx in
+             let st1 =
+               if matched
+               then { v_pos = pos'; v_res = (Some n0); v_term = true }
+               else { v_pos = pos'; v_res = st0.v_res; v_term = false }
+             in
+             let skip =
+               (&&) (negb matched) (Z.ltb (zlen ptr) (Z.add lvl (Zpos XH)))
+             in
+             if (&&) matched (negb enter_after_terminate)
+             then VOk st1
+             else if skip
+                  then loop rest st1
+                  else (match kids n0 with
+                        | KNot -> loop rest st1
+                        | KErr e -> VErr e
+                        | KSome cs' ->
+                          if Z.gtb (Z.add lvl (Zpos XH))
+                               jbinn_JBL_MAX_NESTING_LEVEL
+                          then VErr e_NESTING
+                          else (match visit kids upd enter_after_terminate
+                                        ptr f (Z.add lvl (Zpos XH)) cs' st1 with
+                                | VErr e -> VErr e
+                                | VOk st2 -> loop rest st2))
+    in loop cs st
+
+type 'n at_res =
+| AtFound of 'n
+| AtNotFound
+| AtPtrErr
+| AtPtrUndef
+| AtErr of z
+
+(** val at_fuel : z list list -> nat **)
+
+let at_fuel ptr =
+  S (S (length ptr))
+
+(** val number : z -> 'a1 list -> ((z list option * z) * 'a1) list **)
+
+let rec number i = function
+| [] -> []
+| x :: r -> ((None, i), x) :: (number (Z.add i (Zpos XH)) r)
+
+(** val kids_j : jval -> jval kres **)
+
+let kids_j = function
+| JArr items -> KSome (number Z0 items)
+| JObj ms ->
+  KSome (map (fun m -> (((Some (fst m)), (zlen (fst m))), (snd m))) ms)
+| _ -> KNot
+
+(** val at_tree2 : jval -> z list list -> jval at_res **)
+
+let at_tree2 v ptr = match ptr with
+| [] -> AtFound v
+| _ :: _ ->
+  (match kids_j v with
+   | KSome cs ->
+     (match visit kids_j upd_jbn true ptr (at_fuel ptr) Z0 cs { v_pos = (Zneg
+              XH); v_res = None; v_term = false } with
+      | VErr e -> AtErr e
+      | VOk st ->
+        (match st.v_res with
+         | Some r -> AtFound r
+         | None -> AtNotFound))
+   | _ -> AtNotFound)
+
+(** val at_tree : jval -> z list -> jval at_res **)
+
+let at_tree v path =
+  match ptr_parse3 path with
+  | PErr -> AtPtrErr
+  | PUndef -> AtPtrUndef
+  | POk ptr -> at_tree2 v ptr
+
+(** val kids_b : bval -> bval kres **)
+
+let kids_b b =
+  if Z.eqb b.bt jbinn_BINN_OBJECT
+  then (match iter_init b.bptr jbinn_BINN_OBJECT with
+        | Some it ->
+          KSome
+            (map (fun m -> (((Some (fst m)), (Zneg XH)), (snd m)))
+              (obj_items (iter_fuel it) it))
+        | None -> KErr e_INVALID)
+  else if Z.eqb b.bt jbinn_BINN_LIST
+       then (match iter_init b.bptr jbinn_BINN_LIST with
+             | Some it -> KSome (number Z0 (list_items (iter_fuel it) it))
+             | None -> KErr e_INVALID)
+       else if Z.eqb b.bt jbinn_BINN_MAP then KErr e_DECODE else KNot
+
+(** val at_bval2 : bval -> z list list -> bval at_res **)
+
+let at_bval2 b ptr = match ptr with
+| [] -> AtFound b
+| _ :: _ ->
+  (match kids_b b with
+   | KNot -> AtErr e_INVALID
+   | KErr e -> AtErr e
+   | KSome cs ->
+     (match visit kids_b upd_jbl false ptr (at_fuel ptr) Z0 cs { v_pos =
+              (Zneg XH); v_res = None; v_term = false } with
+      | VErr e -> AtErr e
+      | VOk st ->
+        (match st.v_res with
+         | Some r -> AtFound r
+         | None -> AtNotFound)))
+
+(** val at_binn2 : z list -> z list list -> jval at_res **)
+
+let at_binn2 bs ptr =
+  match root_bval bs with
+  | Some b ->
+    (match at_bval2 b ptr with
+     | AtFound r ->
+       (match dec_node (S (length bs)) r with
+        | Some v -> AtFound v
+        | None -> AtErr e_DECODE)
+     | AtNotFound -> AtNotFound
+     | AtPtrErr -> AtPtrErr
+     | AtPtrUndef -> AtPtrUndef
+     | AtErr e -> AtErr e)
+  | None -> AtErr e_INVALID
+
+(** val at_binn : z list -> z list -> jval at_res **)
+
+let at_binn bs path =
+  match ptr_parse3 path with
+  | PErr -> AtPtrErr
+  | PUndef -> AtPtrUndef
+  | POk ptr -> at_binn2 bs ptr
+
+type cframe = { f_key : z list option; f_obj : bool;
+                f_kids : (z list option * jval) list }
+
+type cst = { c_stack : cframe list; c_pend : (z list option * bool) option;
+             c_pos : z }
+
+(** val frame_val : cframe -> jval **)
+
+let frame_val f =
+  if f.f_obj
+  then JObj
+         (map (fun c -> ((match fst c with
+                          | Some k -> k
+                          | None -> []), (snd c))) (rev f.f_kids))
+  else JArr (map snd (rev f.f_kids))
+
+(** val add_kid : (z list option * jval) -> cframe list -> cframe list **)
+
+let add_kid c = function
+| [] -> []
+| f :: r ->
+  { f_key = f.f_key; f_obj = f.f_obj; f_kids = (c :: f.f_kids) } :: r
+
+(** val flush : cst -> cst **)
+
+let flush s =
+  match s.c_pend with
+  | Some p ->
+    let (k, o) = p in
+    { c_stack = (add_kid (k, (if o then JObj [] else JArr [])) s.c_stack);
+    c_pend = None; c_pos = s.c_pos }
+  | None -> s
+
+(** val pop1 : cframe list -> cframe list **)
+
+let pop1 = function
+| [] -> []
+| f :: r -> add_kid (f.f_key, (frame_val f)) r
+
+(** val popn : nat -> cframe list -> cframe list **)
+
+let rec popn n0 st =
+  match n0 with
+  | O -> st
+  | S k -> popn k (pop1 st)
+
+(** val clone_visit : z -> z list option -> jval -> cst -> cst **)
+
+let clone_visit lvl key n0 s =
+  let s1 =
+    if Z.ltb lvl s.c_pos
+    then let s0 = flush s in
+         { c_stack = (popn (Z.to_nat (Z.sub s.c_pos lvl)) s0.c_stack);
+         c_pend = None; c_pos = lvl }
+    else if Z.gtb lvl s.c_pos
+         then (match s.c_pend with
+               | Some p ->
+                 let (k, o) = p in
+                 { c_stack = ({ f_key = k; f_obj = o; f_kids =
+                 [] } :: s.c_stack); c_pend = None; c_pos = lvl }
+               | None -> { c_stack = s.c_stack; c_pend = None; c_pos = lvl })
+         else flush s
+  in
+  (match n0 with
+   | JArr _ ->
+     { c_stack = s1.c_stack; c_pend = (Some (key, false)); c_pos = s1.c_pos }
+   | JObj _ ->
+     { c_stack = s1.c_stack; c_pend = (Some (key, true)); c_pos = s1.c_pos }
+   | _ ->
+     { c_stack = (add_kid (key, n0) s1.c_stack); c_pend = None; c_pos =
+       s1.c_pos })
+
+(** val clone_walk : z -> jval -> cst -> cst **)
+
+let rec clone_walk lvl v s =
+  match v with
+  | JArr items ->
+    let rec loop l s0 =
+      match l with
+      | [] -> s0
+      | x :: r ->
+        loop r
+          (clone_walk (Z.add lvl (Zpos XH)) x (clone_visit lvl None x s0))
+    in loop items s
   | JObj ms ->
-    (match lookup s ms with
-     | Some _ -> Some (JObj (remove_member s ms))
-     | None -> None)
-  | _ -> None
+    let rec loop l s0 =
+      match l with
+      | [] -> s0
+      | p :: r ->
+        let (k, x) = p in
+        loop r
+          (clone_walk (Z.add lvl (Zpos XH)) x (clone_visit lvl (Some k) x s0))
+    in loop ms s
+  | _ -> s
 
-(** val add_here : cfg -> jval -> jval -> sseg -> jval option **)
+(** val jbn_clone : jval -> jval **)
 
-let add_here c x parent s =
-  match parent with
-  | JArr l ->
-    if s_is_dash s
-    then Some (JArr (app l (x :: [])))
-    else (match c.c_ins s with
-          | Some i ->
-            if (&&) (Z.leb Z0 i) (Z.leb i (Z.of_nat (length l)))
-            then Some (JArr
-                   (app (firstn (Z.to_nat i) l) (x :: (skipn (Z.to_nat i) l))))
-            else None
-          | None -> None)
-  | JObj ms ->
-    Some (JObj
-      (match lookup s ms with
-       | Some _ -> set_member s x ms
-       | None -> app ms ((s, x) :: [])))
-  | _ -> None
-
-(** val s_remove : cfg -> jval -> sseg list -> jval option **)
-
-let s_remove c v p =
-  jmod c v p (remove_here c)
-
-(** val s_add : cfg -> jval -> sseg list -> jval -> jval option **)
-
-let s_add c v p x =
-  jmod c v p (add_here c x)
-
-(** val jeq : (z -> z -> bool) -> jval -> jval -> bool **)
-
-let rec jeq feq a b =
-  match a with
-  | JNull -> (match b with
-              | JNull -> true
-              | _ -> false)
-  | JBool x -> (match b with
-                | JBool y -> eqb x y
-                | _ -> false)
-  | JI64 x -> (match b with
-               | JI64 y -> Z.eqb x y
-               | _ -> false)
-  | JF64 x -> (match b with
-               | JF64 y -> feq x y
-               | _ -> false)
-  | JStr x -> (match b with
-               | JStr y -> bytes_eqb x y
-               | _ -> false)
-  | JArr xs ->
-    (match b with
-     | JArr ys ->
-       let rec go l m =
-         match l with
-         | [] -> (match m with
-                  | [] -> true
-                  | _ :: _ -> false)
-         | x :: l' ->
-           (match m with
-            | [] -> false
-            | y :: m' -> (&&) (jeq feq x y) (go l' m'))
-       in go xs ys
-     | _ -> false)
-  | JObj xs ->
-    (match b with
-     | JObj ys ->
-       (&&) (Z.eqb (Z.of_nat (length xs)) (Z.of_nat (length ys)))
-         (let rec go = function
-          | [] -> true
-          | p :: l' ->
-            let (k, x) = p in
-            (&&)
-              (match lookup k ys with
-               | Some y -> jeq feq x y
-               | None -> false) (go l')
-          in go xs)
-     | _ -> false)
-
-type sopk =
-| SNone
-| SAdd
-| SRemove
-| SReplace
-| SCopy
-| SMove
-| STest
-| SIncrement
-| SAddCreate
-| SSwap
-
-type sop = { s_op : sopk; s_path : sseg list; s_from : sseg list option;
-             s_val : jval option }
-
-(** val seg_prefix : sseg list -> sseg list -> bool **)
-
-let rec seg_prefix a b =
-  match a with
-  | [] -> true
-  | x :: a' ->
-    (match b with
-     | [] -> false
-     | y :: b' -> (&&) (bytes_eqb x y) (seg_prefix a' b'))
-
-(** val proper_prefix : sseg list -> sseg list -> bool **)
-
-let proper_prefix a b =
-  (&&) (seg_prefix a b) (negb (seg_prefix b a))
-
-(** val s_is_root : cfg -> sseg list -> bool **)
-
-let s_is_root c = function
-| [] -> true
-| s :: l ->
-  (match s with
-   | [] -> (match l with
-            | [] -> c.c_lenient
-            | _ :: _ -> false)
-   | _ :: _ -> false)
-
-(** val rfc_op :
-    cfg -> (z -> z -> bool) -> jval option -> sop -> jval option option **)
-
-let rfc_op c feq d o =
-  let path = o.s_path in
-  (match o.s_op with
-   | SAdd ->
-     (match o.s_val with
-      | Some v ->
-        if s_is_root c path
-        then Some (Some v)
-        else (match d with
-              | Some dv -> option_map (fun x -> Some x) (s_add c dv path v)
-              | None -> None)
-      | None -> None)
-   | SRemove ->
-     if s_is_root c path
-     then Some None
-     else (match d with
-           | Some dv -> option_map (fun x -> Some x) (s_remove c dv path)
-           | None -> None)
-   | SReplace ->
-     (match o.s_val with
-      | Some v ->
-        if s_is_root c path
-        then Some (Some v)
-        else (match d with
-              | Some dv ->
-                (match s_remove c dv path with
-                 | Some d1 -> option_map (fun x -> Some x) (s_add c d1 path v)
-                 | None -> None)
-              | None -> None)
-      | None -> None)
-   | SCopy ->
-     (match o.s_from with
-      | Some f ->
-        (match d with
-         | Some dv ->
-           if s_is_root c path
-           then if c.c_lenient
-                then Some d
-                else (match jget c dv f with
-                      | Some x -> Some (Some x)
-                      | None -> None)
-           else (match jget c dv f with
-                 | Some x ->
-                   option_map (fun x0 -> Some x0) (s_add c dv path x)
-                 | None -> None)
-         | None ->
-           if (&&) (s_is_root c path) c.c_lenient then Some d else None)
-      | None -> if (&&) (s_is_root c path) c.c_lenient then Some d else None)
-   | SMove ->
-     (match o.s_from with
-      | Some f ->
-        (match d with
-         | Some dv ->
-           if s_is_root c path
-           then if c.c_lenient
-                then Some d
-                else (match jget c dv f with
-                      | Some x -> Some (Some x)
-                      | None -> None)
-           else if (&&) (negb c.c_lenient) (proper_prefix f path)
-                then None
-                else (match jget c dv f with
-                      | Some x ->
-                        (match s_remove c dv f with
-                         | Some d1 ->
-                           option_map (fun x0 -> Some x0) (s_add c d1 path x)
-                         | None -> None)
-                      | None -> None)
-         | None ->
-           if (&&) (s_is_root c path) c.c_lenient then Some d else None)
-      | None -> if (&&) (s_is_root c path) c.c_lenient then Some d else None)
-   | STest ->
-     (match o.s_val with
-      | Some v ->
-        (match if s_is_root c path
-               then d
-               else (match d with
-                     | Some dv -> jget c dv path
-                     | None -> None) with
-         | Some x -> if jeq feq x v then Some d else None
-         | None -> None)
-      | None -> None)
-   | _ -> None)
-
-(** val rfc_program :
-    cfg -> (z -> z -> bool) -> jval option -> sop list -> jval option option **)
-
-let rec rfc_program c feq d = function
-| [] -> Some d
-| o :: l' ->
-  (match rfc_op c feq d o with
-   | Some d' -> rfc_program c feq d' l'
-   | None -> None)
-
-(** val merge_spec : jval option -> jval -> jval **)
-
-let rec merge_spec t p = match p with
-| JObj pms ->
-  JObj
-    (let rec go tm = function
-     | [] -> tm
-     | p0 :: l' ->
-       let (k, pv) = p0 in
-       go
-         (match pv with
-          | JNull -> remove_member k tm
-          | _ ->
-            (match lookup k tm with
-             | Some x -> set_member k (merge_spec (Some x) pv) tm
-             | None -> app tm ((k, (merge_spec None pv)) :: []))) l'
-     in go
-          (match t with
-           | Some j ->
-             (match j with
-              | JNull -> []
-              | JBool _ -> []
-              | JI64 _ -> []
-              | JF64 _ -> []
-              | JStr _ -> []
-              | JArr _ -> []
-              | JObj ms -> ms)
-           | None -> []) pms)
-| _ -> p
+let jbn_clone v = match v with
+| JArr _ ->
+  let s =
+    flush
+      (clone_walk Z0 v { c_stack = ({ f_key = None; f_obj =
+        (match v with
+         | JObj _ -> true
+         | _ -> false); f_kids = [] } :: []); c_pend = None; c_pos = Z0 })
+  in
+  (match popn (Z.to_nat s.c_pos) s.c_stack with
+   | [] -> JNull
+   | f :: _ -> frame_val f)
+| JObj _ ->
+  let s =
+    flush
+      (clone_walk Z0 v { c_stack = ({ f_key = None; f_obj =
+        (match v with
+         | JObj _ -> true
+         | _ -> false); f_kids = [] } :: []); c_pend = None; c_pos = Z0 })
+  in
+  (match popn (Z.to_nat s.c_pos) s.c_stack with
+   | [] -> JNull
+   | f :: _ -> frame_val f)
+| _ -> v
